@@ -17,7 +17,13 @@ EXPLANATION = (
     "reversed, decrypt in order; missing keys raise); only create/created may be plaintext and plaintext cells of any "
     "other type are dropped before delivery/relay; every cell leaves through a successful crypto step; a cell that fails "
     "authentication is dropped; a circuit id selects one key set only (an exit socket is never installed under the id of an "
-    "own circuit). Byte equality / ciphertext distinctness / tamper rejection rest on the AEAD (trusted)."
+    "own circuit); what the application hands to the anonymising endpoint is what enters the circuit (TunnelEndpoint.send passes its "
+    "own address/packet to send_data, followed by value through copies, tuples, closures and helpers); data is attributed to an own "
+    "circuit only when the sender's full socket address is the first hop's; both handshake sides contribute an ephemeral key "
+    "generated in that very call (no cached ephemerals, hence unrelated session keys per circuit). Steps are recognised by what "
+    "they compute: callables picked from dispatch tables / conditional expressions, layer plans (generators, returned or locally "
+    "built lists walked by one loop), decisions returned as tags / flags by helpers, guards spelled as any()/loops/de Morgan. "
+    "Byte equality / ciphertext distinctness / tamper rejection rest on the AEAD (trusted)."
 )
 
 CR = "ipv8/messaging/anonymization/crypto.py"
@@ -64,7 +70,86 @@ def _is_pure_alias(v: ast.AST) -> bool:
 
 
 def _bindings(fi: FuncInfo, name: str) -> int:
-    return len(local_defs(fi, name)) + (1 if is_param(fi, name) else 0)
+    """Number of bindings of local `name`; `x = cast(T, x)` / `x = x` re-binds the same value and is not counted."""
+    n = 1 if is_param(fi, name) else 0
+    for _, v, idx in local_defs(fi, name):
+        sv = strip_cast(v) if v is not None else None
+        if idx is None and isinstance(sv, ast.Name) and sv.id == name:
+            continue
+        n += 1
+    return n
+
+
+def _is_new(fi: FuncInfo) -> bool:
+    """fi is not a function of the reviewed tree (sa/tables/local_names.json): a helper introduced by a later change."""
+    from ..localnames import load_table
+    t = load_table().get(fi.module.relpath)
+    return t is not None and fi.qualname not in t
+
+
+def _subst_name(e: ast.AST, name: str, value: ast.AST) -> ast.AST:
+    class _S(ast.NodeTransformer):
+        def visit_Name(self, n: ast.Name):  # noqa: N802
+            return clone(value) if n.id == name and isinstance(n.ctx, ast.Load) else n
+
+    return _S().visit(clone(e))
+
+
+def _literal_elts(fi: FuncInfo | None, it: ast.AST):
+    """Elements of a tuple / list / set display (read directly or through a local bound once to the display)."""
+    it = strip_cast(it)
+    if isinstance(it, ast.Name) and fi is not None and _bindings(fi, it.id) == 1:
+        it = resolve(fi, it)
+    if isinstance(it, (ast.Tuple, ast.List, ast.Set)) and not any(isinstance(x, ast.Starred) for x in it.elts):
+        return list(it.elts)
+    return None
+
+
+_BOOL_SHAPES = (ast.Compare, ast.BoolOp, ast.UnaryOp, ast.IfExp)
+
+
+def _derive(fi: FuncInfo | None, e: ast.AST, pol: bool, depth: int = 4) -> list:
+    """[(atom, truth)] implied by expression `e` having truthiness `pol`: negation, and/or (de Morgan), bool(x), comparison chains,
+    any()/all() over a display of alternatives, `True if c else False`, and a local bound once to such a test."""
+    e = strip_cast(e)
+    if isinstance(e, ast.UnaryOp) and isinstance(e.op, ast.Not):
+        return _derive(fi, e.operand, not pol, depth)
+    if isinstance(e, ast.BoolOp):
+        if isinstance(e.op, ast.And) is pol:
+            return [x for v in e.values for x in _derive(fi, v, pol, depth)]
+        return [(e, pol)]
+    if isinstance(e, ast.Call) and isinstance(e.func, ast.Name) and not e.keywords and len(e.args) == 1:
+        a = e.args[0]
+        if e.func.id == "bool":
+            return _derive(fi, a, pol, depth)
+        if e.func.id in ("any", "all") and (e.func.id == "all") is pol and isinstance(a, (ast.GeneratorExp, ast.ListComp)) \
+                and len(a.generators) == 1:
+            g = a.generators[0]
+            elts = _literal_elts(fi, g.iter)
+            if elts is not None and isinstance(g.target, ast.Name) and not g.ifs and not g.is_async:
+                return [x for el in elts for x in _derive(fi, _subst_name(a.elt, g.target.id, el), pol, depth)]
+        return [(e, pol)]
+    if isinstance(e, ast.IfExp) and isinstance(e.body, ast.Constant) and isinstance(e.orelse, ast.Constant) \
+            and bool(e.body.value) is not bool(e.orelse.value):
+        return _derive(fi, e.test, pol if e.body.value else not pol, depth)
+    if isinstance(e, ast.Compare) and len(e.ops) > 1 and pol:
+        out, left = [], e.left
+        for op, right in zip(e.ops, e.comparators):
+            out.append((ast.Compare(left=left, ops=[op], comparators=[right]), True))
+            left = right
+        return out
+    if isinstance(e, ast.Name) and fi is not None and depth > 0 and _bindings(fi, e.id) == 1:
+        d = single_def(fi, e.id)
+        v = strip_cast(d[0]) if d is not None and d[1] is None else None
+        shaped = isinstance(v, _BOOL_SHAPES) or (isinstance(v, ast.Call) and chain(v.func) in ("bool", "any", "all"))
+        if shaped and all(_bindings(fi, nm) <= 1 for nm in names_in(v)):
+            return [(e, pol), *_derive(fi, v, pol, depth - 1)]
+    return [(e, pol)]
+
+
+def _fact_truth(f: Fact) -> bool:
+    """Truth value of f.atom that the fact records (Fact.pos is relative to the operator: `a != b` true is eq/neg)."""
+    return fact_of(f.atom, True).pos == f.pos
 
 
 def _alias_def(ctx: Ctx, fi: FuncInfo, name: str, at: ast.AST | None) -> ast.AST | None:
@@ -114,10 +199,132 @@ def _xchain(ctx: Ctx, fi: FuncInfo, e: ast.AST | None, env: dict | None = None, 
 
 def _xfacts(ctx: Ctx, fi: FuncInfo, site, env: dict | None = None) -> list[Fact]:
     """Dominating facts at site, operands expanded (aliases / helper parameters)."""
-    out = []
-    for f in facts_at(ctx.cfg(fi), site):
-        out.append(Fact(f.op, _expand(ctx, fi, f.left, env), _expand(ctx, fi, f.right, env) if f.right is not None else None, f.pos, f.atom))
+    return _xfacts_of(ctx, fi, facts_at(ctx.cfg(fi), site), env, site=site)
+
+
+def _fkey(x: Fact):
+    return (x.op, norm(x.left), norm(x.right) if x.right is not None else None, x.pos)
+
+
+def _xfacts_of(ctx: Ctx, fi: FuncInfo, facts, env: dict | None = None, site=None, depth: int = 2) -> list[Fact]:
+    """The given facts of fi and everything they imply (_derive; with a site also _decision_facts), operands expanded."""
+    out, seen = [], set()
+
+    def add(x: Fact) -> None:
+        k = _fkey(x)
+        if k not in seen:
+            seen.add(k)
+            out.append(x)
+
+    for f in facts:
+        truth = _fact_truth(f)
+        parts = list(_derive(fi, f.atom, truth))
+        whole = _expand(ctx, fi, f.atom, env)
+        parts += [(a, p) for a, p in _derive(None, whole, truth) if norm(a) != norm(whole)]
+        for a, p in parts:
+            g = fact_of(a, p)
+            add(Fact(g.op, _expand(ctx, fi, g.left, env), _expand(ctx, fi, g.right, env) if g.right is not None else None, g.pos, f.atom))
+            if site is not None and depth > 0:
+                for x in _decision_facts(ctx, fi, env, g, site, depth - 1):
+                    add(x)
     return out
+
+
+def _const_or_none(e: ast.AST | None):
+    """(True, value) for a constant expression (a missing `return` value is None), else (False, None)."""
+    if e is None:
+        return True, None
+    e = strip_cast(e)
+    if isinstance(e, ast.Constant):
+        return True, e.value
+    return False, None
+
+
+def _satisfies(f: Fact, value) -> bool | None:
+    """Does a local holding the constant `value` make fact f (about that local) true?  None: f is not a test of a constant."""
+    if f.op == "truthy":
+        return bool(value) is f.pos
+    known, k = _const_or_none(f.right)
+    if f.op == "is" and known and k is None:
+        return (value is None) is f.pos
+    if f.op == "eq" and known:
+        return (value == k and type(value) is type(k)) is f.pos
+    if f.op == "in":
+        elts = _literal_elts(None, f.right)
+        if elts is not None and all(isinstance(strip_cast(x), ast.Constant) for x in elts):
+            return any(value == strip_cast(x).value for x in elts) is f.pos
+    return None
+
+
+def _decision_facts(ctx: Ctx, fi: FuncInfo, env, f: Fact, site, depth: int) -> list[Fact]:
+    """Facts implied by a test of a decision: f tests a local of fi that holds a constant tag / flag assigned on different paths
+    (`kind = 'raw'` ... `if kind == 'raw'`), or the result of a helper that returns such constants (or a test).  Whatever holds at
+    every assignment / `return` that can have produced a value passing the test holds at the site."""
+    x = strip_cast(f.left)
+    if not isinstance(x, ast.Name) or is_param(fi, x.id) or (env and x.id in env) or _satisfies(f, 0) is None:
+        return []
+    cfg = ctx.cfg(fi)
+    site_nodes = cfg.nodes_for(site) if not hasattr(site, "succ") else [site]
+    defs = local_defs(fi, x.id)
+    if not defs or not site_nodes:
+        return []
+    sets = []                          # one fact list per producer that can have produced a passing value
+    for st, v, idx in defs:
+        if v is None:
+            return []
+        others = [st2 for st2, _, _ in defs if st2 is not st]
+        v = strip_cast(v)
+        alts = None                    # [(value expression | None, [(atom, truth)] in fi, helper return info | None)]
+        if idx is None and isinstance(v, ast.IfExp):
+            alts = [(v.body, _derive(fi, v.test, True), None), (v.orelse, _derive(fi, v.test, False), None)]
+        elif isinstance(v, ast.Call) and len(defs) == 1 and (_helper(ctx, fi, v) or _new_helper(ctx, fi, v)) is not None:
+            h = _helper(ctx, fi, v) or _new_helper(ctx, fi, v)
+            if h is fi or any(isinstance(n, (ast.Yield, ast.YieldFrom)) for n in walk_no_nested(h.node)):
+                return []
+            henv = _bind(ctx, fi, v, h, env)
+            hcfg = ctx.cfg(h)
+            rets = [r for r in walk_no_nested(h.node) if isinstance(r, ast.Return)]
+            alts = []
+            for r in rets:
+                rv = r.value
+                if idx is not None:
+                    rv = strip_cast(rv) if rv is not None else None
+                    if not (isinstance(rv, ast.Tuple) and idx < len(rv.elts) and not any(isinstance(e, ast.Starred) for e in rv.elts)):
+                        return []
+                    rv = rv.elts[idx]
+                alts.append((rv, [], (h, henv, r)))
+            rnodes = [g for r in rets for g in hcfg.nodes_for(r)]
+            if hcfg.exit in hcfg.reach(cut_nodes=rnodes):
+                if idx is not None:
+                    return []
+                alts.append((None, [], (h, henv, None)))
+        elif idx is None:
+            alts = [(v, [], None)]
+        if alts is None:
+            return []
+        for val, extra, hret in alts:
+            known, c = _const_or_none(val)
+            more = []
+            if known:
+                if not _satisfies(f, c):
+                    continue
+            elif f.op == "truthy" and hret is not None:
+                more = _derive(hret[0], val, f.pos)       # `return <test>`: the test has the truthiness the caller observes
+            else:
+                return []
+            if hret is not None:
+                h, henv, r = hret
+                if r is None:
+                    sets.append([])
+                    continue
+                sets.append(_xfacts(ctx, h, r, henv) + _xfacts_of(ctx, h, [fact_of(a, p) for a, p in more], henv))
+            else:
+                pf = [(a, p) for a, p in _path_facts(ctx, fi, st, others, site_nodes) if not isinstance(a, (ast.For, ast.AsyncFor, ast.While))]
+                sets.append(_xfacts_of(ctx, fi, [fact_of(a, p) for a, p in [*pf, *extra]], env, site=st, depth=depth))
+    if not sets:
+        return []
+    keys = set.intersection(*[{_fkey(z) for z in fs} for fs in sets])
+    return [z for z in sets[0] if _fkey(z) in keys]
 
 
 def _helper(ctx: Ctx, fi: FuncInfo, call: ast.Call) -> FuncInfo | None:
@@ -143,7 +350,60 @@ def _bind(ctx: Ctx, fi: FuncInfo, call: ast.Call, target: FuncInfo, env: dict | 
         out[p] = _expand(ctx, fi, v, env)
     for k in call.keywords:
         out[k.arg] = _expand(ctx, fi, k.value, env)
+    out.update(_canon_locals(ctx, target, out))
     return out
+
+
+# the reviewed names of the routing-table lookups of each role function: a helper that performs such a lookup itself may call the
+# result anything; the rules compare roles by these names
+CANON = {
+    "outgoing_crypto": {("circuits", "cell.circuit_id"): "circuit", ("exit_sockets", "cell.circuit_id"): "exit_socket",
+                        ("relays", "cell.circuit_id"): "relay", ("relays", "relay.circuit_id"): "other"},
+    "incoming_crypto": {("circuits", "cell.circuit_id"): "circuit", ("exit_sockets", "cell.circuit_id"): "exit_socket"},
+    "relay_cell": {("relays", "cell.circuit_id"): "next_relay", ("relays", "next_relay.circuit_id"): "this_relay"},
+}
+
+
+def _role_of(ctx: Ctx, fi: FuncInfo, _seen=()) -> str | None:
+    """The one role function (outgoing_crypto / incoming_crypto / relay_cell) from which helper fi is reached."""
+    if fi.name in CANON and fi.cls is not None and fi.cls.name == "PythonCryptoEndpoint":
+        return fi.name
+    if not _is_new(fi) or len(_seen) > 4:
+        return None
+    roles = set()
+    for _, c_fi, _ in _callers(ctx, fi.name):
+        if c_fi is None or c_fi is fi or c_fi in _seen:
+            continue
+        roles.add(_role_of(ctx, c_fi, (*_seen, fi)))
+    return roles.pop() if len(roles) == 1 else None
+
+
+def _canon_locals(ctx: Ctx, t: FuncInfo, env: dict) -> dict:
+    """{local of helper t: reviewed name} for locals bound once to a lookup `self.<table>.get(<id>)` / `self.<table>[<id>]`."""
+    table = CANON.get(_role_of(ctx, t) or "")
+    if not table or t.name in CANON:
+        return {}
+    used = {n.id for n in ast.walk(t.node) if isinstance(n, ast.Name)} | set(t.params())
+    res: dict = {}
+    assigns = sorted((n for n in walk_no_nested(t.node) if isinstance(n, (ast.Assign, ast.AnnAssign)) and n.value is not None),
+                     key=lambda n: (n.lineno, n.col_offset))
+    for st in assigns:
+        tg = st.targets[0] if isinstance(st, ast.Assign) and len(st.targets) == 1 else st.target if isinstance(st, ast.AnnAssign) else None
+        if not isinstance(tg, ast.Name) or _bindings(t, tg.id) != 1:
+            continue
+        v = strip_cast(st.value)
+        tbl = key = None
+        if isinstance(v, ast.Call) and isinstance(v.func, ast.Attribute) and v.func.attr == "get" and 1 <= len(v.args) <= 2 and not v.keywords \
+                and (len(v.args) == 1 or (isinstance(v.args[1], ast.Constant) and v.args[1].value is None)):
+            tbl, key = chain(v.func.value), v.args[0]
+        elif isinstance(v, ast.Subscript):
+            tbl, key = chain(v.value), v.slice
+        if not tbl or not tbl.startswith("self.") or key is None:
+            continue
+        name = table.get((tbl[5:], norm(_expand(ctx, t, key, {**env, **res}))))
+        if name and name != tg.id and name not in used:
+            res[tg.id] = ast.Name(id=name, ctx=ast.Load())
+    return res
 
 
 def _cond_call(ctx: Ctx, fi: FuncInfo, n) -> ast.Call | None:
@@ -161,19 +421,52 @@ class _Site:
     env: dict | None                  # helper parameter -> argument (in the role function's terms)
     facts: list                       # dominating facts, outer call sites first
     via: list = field(default_factory=list)      # [(function, helper call)] from the role function down to fi
+    op: str | None = None             # operation when the callee is picked at run time (dispatch table / conditional callable)
+    elem: object = None               # _Elem: the layer-plan element this step stands for (call inside `for ... in <plan>`)
+    plan: object = None               # _Plan the element belongs to
+    subst: dict | None = None         # loop variable -> (function, env, expression) of the plan element
+
+
+def _new_helper(ctx: Ctx, fi: FuncInfo, call: ast.Call) -> FuncInfo | None:
+    """Target of `self.<m>(...)` when <m> is a plain method of the same class that the reviewed tree does not have."""
+    f = call.func
+    if not (isinstance(f, ast.Attribute) and isinstance(f.value, ast.Name) and f.value.id == "self" and fi.cls is not None):
+        return None
+    t = fi.cls.lookup(f.attr)
+    if not isinstance(t, FuncInfo) or t.node.decorator_list or not _is_new(t):
+        return None
+    return t
+
+
+def _callee(ctx: Ctx, *names: str):
+    """Site predicate for _sites: the callee is one of the given chains (read directly or through local aliases / helper parameters)."""
+    return lambda fi, env, c: chain(c.func) in names or _xchain(ctx, fi, c.func, env, at=c) in names
+
+
+def _sites(ctx: Ctx, fi: FuncInfo, is_site, helper_of=_helper, env: dict | None = None, outer=(), via=(), depth: int = 3) -> list[_Site]:
+    """Call sites (is_site(call)) of a function including those in the helpers it calls, with the facts that dominate them."""
+    out = []
+    for c in calls(fi):
+        if is_site(fi, env, c):
+            out.append(_Site(fi, c, env, list(outer) + _xfacts(ctx, fi, c, env), list(via)))
+            continue
+        t = helper_of(ctx, fi, c)
+        if t is not None and depth > 0 and all(t is not g for g, _ in via) and t is not fi:
+            out.extend(_sites(ctx, t, is_site, helper_of, _bind(ctx, fi, c, t, env), list(outer) + _xfacts(ctx, fi, c, env),
+                              [*via, (fi, c)], depth - 1))
+    return out
 
 
 def _crypto_sites(ctx: Ctx, fi: FuncInfo, env: dict | None = None, outer=(), via=(), depth: int = 3) -> list[_Site]:
-    """encrypt_cell/decrypt_cell call sites of a role function including those in the helpers it calls."""
+    """The encrypt_cell/decrypt_cell steps of a role function including those in the helpers it calls (see _step_sites)."""
     out = []
     for c in calls(fi):
-        if chain(c.func) in CRYPTO_OPS:
-            out.append(_Site(fi, c, env, list(outer) + _xfacts(ctx, fi, c, env), list(via)))
+        if _is_crypto_call(ctx, fi, c):
+            out.extend(_step_sites(ctx, fi, c, env, list(outer), list(via)))
             continue
         t = _helper(ctx, fi, c)
         if t is not None and depth > 0 and all(t is not g for g, _ in via) and t is not fi:
-            out.extend(_crypto_sites(ctx, t, _bind(ctx, fi, c, t, env), list(outer) + _xfacts(ctx, fi, c, env),
-                                     [*via, (fi, c)], depth - 1))
+            out.extend(_crypto_sites(ctx, t, _bind(ctx, fi, c, t, env), list(outer) + _xfacts(ctx, fi, c, env), [*via, (fi, c)], depth - 1))
     return out
 
 
@@ -205,8 +498,9 @@ def _reaching_defs(ctx: Ctx, fi: FuncInfo, name: str, site_nodes):
     return out
 
 
-def _path_facts(ctx: Ctx, fi: FuncInfo, def_stmt, other_defs, site_nodes):
-    """(atom, polarity) that hold on every path entry -> def_stmt -> site that passes no other definition."""
+def _path_facts(ctx: Ctx, fi: FuncInfo, def_stmt, other_defs, site_nodes, no_complete=()):
+    """(atom, polarity) that hold on every path entry -> def_stmt -> site that passes no other definition (and completes none
+    of the no_complete nodes)."""
     cfg = ctx.cfg(fi)
     dn = cfg.nodes_for(def_stmt)
     out = []
@@ -214,14 +508,15 @@ def _path_facts(ctx: Ctx, fi: FuncInfo, def_stmt, other_defs, site_nodes):
         out.extend(cfg.facts_at(n))
     others = [n for st in other_defs for n in cfg.nodes_for(st)]
     starts = [w for n in dn for w, lab in n.succ if lab != "exc"]
-    base = cfg.reach(starts, cut_nodes=others)
+    base = cfg.reach(starts, cut_nodes=others, cut_out_normal=no_complete)
     if not any(s in base for s in site_nodes):
         return out
     for c in cfg.nodes:
         if c.kind != "cond" or c not in base:
             continue
         for pol in (True, False):
-            r = cfg.reach(starts, cut_nodes=others, cut_edge=lambda u, v, lab, c=c, pol=pol: u is c and lab is pol)
+            r = cfg.reach(starts, cut_nodes=others, cut_out_normal=no_complete,
+                          cut_edge=lambda u, v, lab, c=c, pol=pol: u is c and lab is pol)
             if not any(s in r for s in site_nodes):
                 out.append((c.ast, pol))
     return out
@@ -282,6 +577,11 @@ def _dir_canon(ctx: Ctx, fi: FuncInfo, e: ast.AST | None, env: dict | None, at: 
                 return _ifexp_text(ctx, fi, a, p, v1, v2, env, depth - 1)
     if isinstance(e, ast.IfExp):
         return _ifexp_text(ctx, fi, e.test, True, e.body, e.orelse, env, depth - 1)
+    if isinstance(e, ast.Call) and isinstance(e.func, ast.Attribute) and e.func.attr == "get" and len(e.args) == 2 and not e.keywords:
+        # {K: A}.get(x, B)  ==  A if x == K else B
+        d = _dict_display(fi, e.func.value)
+        if d is not None and len(d.keys) == 1:
+            return _ifexp_text(ctx, fi, _eq(e.args[0], d.keys[0]), True, d.values[0], e.args[1], env, depth - 1)
     return norm(_expand(ctx, fi, e, env, at=at))
 
 
@@ -301,7 +601,471 @@ def _ifexp_text(ctx: Ctx, fi: FuncInfo, test: ast.AST, pol: bool, a: ast.AST, b:
     return f"{ta} if {f} else {tb}"
 
 
+# ------------------------------------------------------------------------------------ callables picked at run time, layer plans
+OPS = ("encrypt_cell", "decrypt_cell")
+
+
+def _dict_display(fi: FuncInfo | None, e: ast.AST):
+    e = strip_cast(e)
+    if isinstance(e, ast.Name) and fi is not None and _bindings(fi, e.id) == 1:
+        e = resolve(fi, e)
+    if isinstance(e, ast.Dict) and e.keys and all(k is not None for k in e.keys):
+        return e
+    return None
+
+
+def _eq(l: ast.AST, r: ast.AST, neg: bool = False) -> ast.Compare:
+    return ast.Compare(left=clone(l), ops=[ast.NotEq() if neg else ast.Eq()], comparators=[clone(r)])
+
+
+def _used(ctx: Ctx) -> set:
+    u = getattr(ctx, "_c04_used_refs", None)
+    if u is None:
+        u = ctx._c04_used_refs = set()  # type: ignore[attr-defined]
+    return u
+
+
+def _op_alts(ctx: Ctx, fi: FuncInfo, func: ast.AST, at: ast.AST, depth: int = 3):
+    """[(operation, [(atom, truth)])]: the alternatives when expression `func` (of fi) denotes self.encrypt_cell / self.decrypt_cell
+    picked at run time - a local bound to the method, a conditional expression / if-else between them, a dict display of them
+    indexed or .get()-ed by a key - each with the tests that select it.  None when the expression is anything else."""
+    func = strip_cast(func)
+    if isinstance(func, ast.Attribute) and isinstance(func.value, ast.Name) and func.value.id == "self" and func.attr in OPS:
+        _used(ctx).add(id(func))
+        return [(func.attr, [])]
+    if depth <= 0:
+        return None
+
+    def both(a, pol, v1, v2):
+        a1, a2 = _op_alts(ctx, fi, v1, at, depth - 1), _op_alts(ctx, fi, v2, at, depth - 1)
+        if a1 is None or a2 is None:
+            return None
+        return [(o, [*fs, (a, pol)]) for o, fs in a1] + [(o, [*fs, (a, not pol)]) for o, fs in a2]
+
+    def table(d, key, default):
+        out = []
+        for k, v in zip(d.keys, d.values):
+            a = _op_alts(ctx, fi, v, at, depth - 1)
+            if a is None:
+                return None
+            out += [(o, [*fs, (_eq(key, k), True)]) for o, fs in a]
+        if default is not None and not (isinstance(default, ast.Constant) and default.value is None):
+            a = _op_alts(ctx, fi, default, at, depth - 1)
+            if a is None:
+                return None
+            out += [(o, [*fs, *[(_eq(key, k), False) for k in d.keys]]) for o, fs in a]
+        return out
+
+    if isinstance(func, ast.Name):
+        if is_param(fi, func.id):
+            return None
+        defs = local_defs(fi, func.id)
+        if len(defs) == 1 and defs[0][1] is not None and defs[0][2] is None:
+            return _op_alts(ctx, fi, defs[0][1], at, depth - 1)
+        if len(defs) == 2 and all(v is not None and idx is None for _, v, idx in defs):
+            cv = _conditional_value(ctx, fi, func.id, at)
+            if cv is not None:
+                return both(*cv)
+        return None
+    if isinstance(func, ast.IfExp):
+        return both(func.test, True, func.body, func.orelse)
+    if isinstance(func, ast.Call) and isinstance(func.func, ast.Attribute) and func.func.attr == "get" and 1 <= len(func.args) <= 2 \
+            and not func.keywords:
+        d = _dict_display(fi, func.func.value)
+        return None if d is None else table(d, func.args[0], func.args[1] if len(func.args) == 2 else None)
+    if isinstance(func, ast.Subscript):
+        d = _dict_display(fi, func.value)
+        return None if d is None else table(d, func.slice, None)
+    return None
+
+
+def _crypto_alts(ctx: Ctx, fi: FuncInfo, c: ast.Call) -> list:
+    """[(operation, selecting tests)] when call c performs an encrypt_cell / decrypt_cell step of self, [] otherwise."""
+    memo = getattr(ctx, "_c04_alts", None)
+    if memo is None:
+        memo = ctx._c04_alts = {}  # type: ignore[attr-defined]
+    if id(c) not in memo:
+        f = strip_cast(c.func)
+        r = None
+        if isinstance(f, (ast.Attribute, ast.Name, ast.IfExp, ast.Subscript, ast.Call)):
+            r = _op_alts(ctx, fi, f, c)
+        memo[id(c)] = r or []
+    return memo[id(c)]
+
+
+def _is_crypto_call(ctx: Ctx, fi: FuncInfo, c: ast.Call) -> bool:
+    return bool(_crypto_alts(ctx, fi, c)) or _loop_callable(ctx, fi, c) is not None
+
+
+def _raw_facts(fi: FuncInfo, pairs) -> list[Fact]:
+    out = []
+    for a, p in pairs:
+        if isinstance(a, (ast.For, ast.AsyncFor, ast.While)):
+            continue
+        out.append(fact_of(a, p))
+    return out
+
+
+@dataclass
+class _Elem:
+    """One element of a layer plan: `yield (d, hops)`, `plan.append((d, hops))`, an element of a returned / assigned display."""
+    fi: FuncInfo
+    env: dict | None
+    expr: ast.AST
+    node: ast.AST                      # the statement that produces it
+    index: int                         # position inside a display
+    facts: list                        # expanded facts that hold whenever the element is part of the plan
+
+
+@dataclass
+class _Plan:
+    elems: list
+    empties: list                      # [[(fi, env, atom, truth)]]: for every way the plan can be empty, the tests that hold then
+    flipped: bool = False              # the loop walks the plan last-to-first
+    ordered: bool = True               # production order == order of the elements in the plan
+    marks: list = field(default_factory=list)    # [(function, statement, 'empty' | 'full')]: what a statement makes of a plan held in a local
+    var: str | None = None             # that local
+
+
+def _value_alts(fi: FuncInfo, v: ast.AST | None):
+    """[(kind, elements, [(atom, truth)])] for a plan value: a display, an empty list()/tuple(), None, a conditional expression
+    between those; None when the value is something else."""
+    if v is None:
+        return [("none", [], [])]
+    v = strip_cast(v)
+    if isinstance(v, ast.Constant) and v.value is None:
+        return [("none", [], [])]
+    if isinstance(v, (ast.List, ast.Tuple)) and not any(isinstance(x, ast.Starred) for x in v.elts):
+        return [("list", list(v.elts), [])]
+    if isinstance(v, ast.Call) and isinstance(v.func, ast.Name) and v.func.id in ("list", "tuple") and not v.keywords:
+        if not v.args:
+            return [("list", [], [])]
+        if len(v.args) == 1 and isinstance(strip_cast(v.args[0]), (ast.List, ast.Tuple)):
+            return _value_alts(fi, v.args[0])
+        return None
+    if isinstance(v, ast.IfExp):
+        a, b = _value_alts(fi, v.body), _value_alts(fi, v.orelse)
+        if a is None or b is None:
+            return None
+        return [(k, e, [*fs, *_derive(fi, v.test, True)]) for k, e, fs in a] + [(k, e, [*fs, *_derive(fi, v.test, False)]) for k, e, fs in b]
+    if isinstance(v, ast.BinOp) and isinstance(v.op, ast.Add):          # [a] + ([b] if t else [])
+        a, b = _value_alts(fi, v.left), _value_alts(fi, v.right)
+        if a is None or b is None or any(k != "list" for k, _, _ in [*a, *b]):
+            return None
+        return [("list", [*e1, *e2], [*f1, *f2]) for _, e1, f1 in a for _, e2, f2 in b]
+    return None
+
+
+_GROW = ("append", "extend", "insert")
+_MUTATE = ("pop", "remove", "clear", "sort", "reverse", "__setitem__", "__delitem__")
+
+
+def _plan_of_local(ctx: Ctx, fi: FuncInfo, env, name: str, targets, outer) -> _Plan | None:
+    """The plan held by local `name` of fi when control reaches one of the CFG nodes `targets`: displays assigned to it on the
+    different paths and elements appended afterwards.  None when the local is built in a way that is not understood."""
+    cfg = ctx.cfg(fi)
+    if is_param(fi, name):
+        return None
+    ordered = True
+    grow = []                          # (statement, [element expressions])
+    for n in walk_no_nested(fi.node):
+        if isinstance(n, ast.Call) and isinstance(n.func, ast.Attribute) and isinstance(n.func.value, ast.Name) and n.func.value.id == name:
+            st = enclosing_stmt(n)
+            plain = isinstance(st, ast.Expr) and st.value is n and not n.keywords
+            if n.func.attr == "append" and plain and len(n.args) == 1:
+                grow.append((st, [n.args[0]]))
+            elif n.func.attr == "extend" and plain and len(n.args) == 1 and isinstance(n.args[0], (ast.List, ast.Tuple)):
+                grow.append((st, list(n.args[0].elts)))
+            elif n.func.attr == "insert" and plain and len(n.args) == 2:
+                grow.append((st, [n.args[1]]))
+                ordered = False
+            elif n.func.attr in _GROW or n.func.attr in _MUTATE:
+                return None
+        elif isinstance(n, ast.AugAssign) and isinstance(n.target, ast.Name) and n.target.id == name:
+            if isinstance(n.op, ast.Add) and isinstance(n.value, (ast.List, ast.Tuple)):
+                grow.append((n, list(n.value.elts)))
+            else:
+                return None
+        elif isinstance(n, ast.Subscript) and isinstance(n.ctx, (ast.Store, ast.Del)) and isinstance(n.value, ast.Name) and n.value.id == name:
+            return None
+    # the list is not reachable under another name: every read of the local is the receiver of one of the calls above, the iterable
+    # of a `for`, a test of the value, or a `return`
+    for n in walk_no_nested(fi.node):
+        if isinstance(n, ast.Name) and n.id == name and isinstance(n.ctx, ast.Load):
+            p_ = parent_of(n)
+            while isinstance(p_, ast.Call) and isinstance(p_.func, ast.Name) and p_.func.id in ("reversed", "list", "tuple", "iter", "bool", "len") \
+                    and len(p_.args) == 1:
+                n, p_ = p_, parent_of(p_)
+            ok_use = (isinstance(p_, ast.Attribute) and isinstance(parent_of(p_), ast.Call) and parent_of(p_).func is p_) or \
+                (isinstance(p_, (ast.For, ast.AsyncFor)) and p_.iter is n) or isinstance(p_, (ast.Return, ast.Compare, ast.If, ast.While, ast.BoolOp, ast.UnaryOp)) or \
+                (isinstance(p_, ast.AugAssign))
+            if not ok_use:
+                return None
+    defs = [(st, v, idx) for st, v, idx in local_defs(fi, name) if not isinstance(st, ast.AugAssign)]
+    if not defs:
+        return None
+    alts = {}
+    for st, v, idx in defs:
+        if idx is not None or not isinstance(st, (ast.Assign, ast.AnnAssign)):
+            return None
+        a = _value_alts(fi, v)
+        if a is None:
+            return None
+        alts[id(st)] = a
+    grow_nodes = [g for st, _ in grow for g in cfg.nodes_for(st)]
+    elems, empties = [], []
+
+    def reaches(st, cut_nodes=()) -> bool:
+        starts = [w for g in cfg.nodes_for(st) for w, lab in g.succ if lab != "exc"]
+        r = cfg.reach(starts, cut_nodes=cut_nodes)
+        return any(t in r for t in targets)
+
+    for st, v, _ in defs:
+        others = [g for st2, _, _ in defs if st2 is not st for g in cfg.nodes_for(st2)]
+        if not reaches(st, others):
+            continue
+        dom = _xfacts(ctx, fi, st, env)
+        for kind, elts, fs in alts[id(st)]:
+            extra = _xfacts_of(ctx, fi, [fact_of(a, p) for a, p in fs], env)
+            for i, e in enumerate(elts):
+                elems.append(_Elem(fi, env, e, st, i, [*outer, *dom, *extra]))
+            if kind == "list" and not elts:
+                starts = [w for g in cfg.nodes_for(st) for w, lab in g.succ if lab != "exc"]
+                r = cfg.reach(starts, cut_nodes=others, cut_out_normal=grow_nodes)
+                if any(t in r for t in targets):
+                    pf = _path_facts(ctx, fi, st, [st2 for st2, _, _ in defs if st2 is not st], targets, no_complete=grow_nodes)
+                    empties.append([(fi, env, a, p) for a, p in [*pf, *fs] if not isinstance(a, (ast.For, ast.AsyncFor, ast.While))])
+    for st, elts in grow:
+        if reaches(st):
+            dom = _xfacts(ctx, fi, st, env)
+            for i, e in enumerate(elts):
+                elems.append(_Elem(fi, env, e, st, i, [*outer, *dom]))
+    marks = [(fi, st, "full" if all(kind == "list" and elts for kind, elts, _ in alts[id(st)]) else "empty") for st, _, _ in defs]
+    marks += [(fi, st, "full") for st, elts in grow if elts]
+    return _Plan(elems, empties, ordered=ordered, marks=marks, var=name)
+
+
+def _plan_of_helper(ctx: Ctx, fi: FuncInfo, call: ast.Call, h: FuncInfo, env, outer) -> _Plan | None:
+    """The plan a helper produces: what a generator yields, or the displays / locally built lists a function returns."""
+    henv = _bind(ctx, fi, call, h, env)
+    hcfg = ctx.cfg(h)
+    ys = [n for n in walk_no_nested(h.node) if isinstance(n, (ast.Yield, ast.YieldFrom))]
+    if ys:
+        if any(isinstance(y, ast.YieldFrom) or y.value is None or not (isinstance(enclosing_stmt(y), ast.Expr) and enclosing_stmt(y).value is y)
+               for y in ys):
+            return None
+        elems = [_Elem(h, henv, y.value, enclosing_stmt(y), 0, [*outer, *_xfacts(ctx, h, y, henv)]) for y in ys]
+        ynodes = [g for y in ys for g in hcfg.nodes_for(y)]
+        empties = []
+        if hcfg.exit in hcfg.reach(cut_out_normal=ynodes):
+            pf = []
+            for c in hcfg.nodes:
+                if c.kind != "cond":
+                    continue
+                for pol in (True, False):
+                    r = hcfg.reach(cut_out_normal=ynodes, cut_edge=lambda u, v, lab, c=c, pol=pol: u is c and lab is pol)
+                    if hcfg.exit not in r:
+                        pf.append((h, henv, c.ast, pol))
+            empties.append(pf)
+        return _Plan(elems, empties)
+    elems, empties, ordered = [], [], True
+    rets = [n for n in walk_no_nested(h.node) if isinstance(n, ast.Return)]
+    if not rets:
+        return None
+    for r in rets:
+        dom = _xfacts(ctx, h, r, henv)
+        v = strip_cast(r.value) if r.value is not None else None
+        if isinstance(v, ast.Name) and not is_param(h, v.id):
+            sub = _plan_of_local(ctx, h, henv, v.id, hcfg.nodes_for(r), [*outer, *dom])
+            if sub is None:
+                return None
+            elems += sub.elems
+            empties += sub.empties
+            ordered = ordered and sub.ordered
+            continue
+        a = _value_alts(h, v)
+        if a is None:
+            return None
+        raw = [(h, henv, f.atom, _fact_truth(f)) for f in facts_at(hcfg, r)]
+        for kind, elts, fs in a:
+            extra = _xfacts_of(ctx, h, [fact_of(x, p) for x, p in fs], henv)
+            for i, e in enumerate(elts):
+                elems.append(_Elem(h, henv, e, r, i, [*outer, *dom, *extra]))
+            if kind == "list" and not elts:
+                empties.append([*raw, *[(h, henv, x, p) for x, p in fs]])
+    return _Plan(elems, empties, ordered=ordered)
+
+
+def _plan_of_iter(ctx: Ctx, fi: FuncInfo, env, loop: ast.For, outer=()) -> _Plan | None:
+    """The layer plan a `for` statement of fi walks, or None when its iterable is not one."""
+    memo = getattr(ctx, "_c04_plans", None)
+    if memo is None:
+        memo = ctx._c04_plans = {}  # type: ignore[attr-defined]
+    key = (id(loop), tuple(sorted((k, norm(v)) for k, v in (env or {}).items())))
+    if key in memo:
+        return memo[key]
+    memo[key] = None
+    cfg = ctx.cfg(fi)
+    it, flipped = strip_cast(loop.iter), False
+    while isinstance(it, ast.Call) and isinstance(it.func, ast.Name) and it.func.id in ("reversed", "list", "tuple", "iter") \
+            and len(it.args) == 1 and not it.keywords:
+        flipped = flipped != (it.func.id == "reversed")
+        it = strip_cast(it.args[0])
+    targets = [n for n in cfg.by_ast.get(id(loop.iter), []) if n.kind == "stmt"]
+    plan = None
+    src = it
+    if isinstance(it, ast.Name) and not is_param(fi, it.id):
+        d = single_def(fi, it.id)
+        if d is not None and d[1] is None and isinstance(strip_cast(d[0]), ast.Call) and _helper(ctx, fi, strip_cast(d[0])) is not None:
+            src = strip_cast(d[0])
+        else:
+            plan = _plan_of_local(ctx, fi, env, it.id, targets, list(outer))
+    if plan is None and isinstance(src, ast.Call):
+        h = _helper(ctx, fi, src)
+        if h is not None and h is not fi:
+            plan = _plan_of_helper(ctx, fi, src, h, env, list(outer))
+    elif plan is None and isinstance(src, (ast.List, ast.Tuple)) and not any(isinstance(x, ast.Starred) for x in src.elts):
+        dom = _xfacts(ctx, fi, loop.iter, env)
+        plan = _Plan([_Elem(fi, env, e, loop, i, [*outer, *dom]) for i, e in enumerate(src.elts)], [] if src.elts else [[]])
+    if plan is not None:
+        plan.flipped = flipped
+    memo[key] = plan
+    return plan
+
+
+def _loop_of(fi: FuncInfo, c: ast.Call):
+    """The innermost `for` around call c whose loop variables the call uses."""
+    used = names_in(c)
+    for a in ancestors(c):
+        if a is fi.node:
+            break
+        if isinstance(a, ast.For) and names_in(a.target) & used and not any(c is x for x in ast.walk(a.iter)):
+            return a
+    return None
+
+
+def _elem_binding(fi: FuncInfo, loop: ast.For, el: _Elem):
+    """loop variable -> (function, env, expression) when the plan element is unpacked into the loop target."""
+    t, e = loop.target, strip_cast(el.expr)
+    if isinstance(e, ast.Name) and _bindings(el.fi, e.id) == 1:
+        e = resolve(el.fi, e)
+    if isinstance(t, ast.Name):
+        return {t.id: (el.fi, el.env, e)}
+    if isinstance(t, (ast.Tuple, ast.List)) and isinstance(e, (ast.Tuple, ast.List)) and len(t.elts) == len(e.elts) \
+            and all(isinstance(x, ast.Name) for x in t.elts) and not any(isinstance(x, ast.Starred) for x in e.elts):
+        return {x.id: (el.fi, el.env, y) for x, y in zip(t.elts, e.elts)}
+    return None
+
+
+def _loop_callable(ctx: Ctx, fi: FuncInfo, c: ast.Call):
+    """The enclosing loop when the callee of c is a loop variable that takes encrypt_cell / decrypt_cell from a plan."""
+    f = c.func
+    if not isinstance(f, ast.Name):
+        return None
+    loop = _loop_of(fi, c)
+    if loop is None or f.id not in names_in(loop.target):
+        return None
+    plan = _plan_of_iter(ctx, fi, None, loop)
+    if plan is None or not plan.elems:
+        return None
+    for el in plan.elems:
+        m = _elem_binding(fi, loop, el)
+        if m is None or f.id not in m or _op_alts(ctx, m[f.id][0], m[f.id][2], m[f.id][2]) is None:
+            return None
+    return loop
+
+
+def _step_sites(ctx: Ctx, fi: FuncInfo, c: ast.Call, env, outer, via) -> list[_Site]:
+    """The protocol steps call c stands for: one per alternative of a callee picked at run time, times one per element of the
+    layer plan when the call sits in a loop over a plan.  [] when c is not a crypto step."""
+    here = [*outer, *_xfacts(ctx, fi, c, env)]
+    loop = _loop_of(fi, c)
+    alts = _crypto_alts(ctx, fi, c)
+    if loop is None or not (alts or _loop_callable(ctx, fi, c) is not None):
+        return [_Site(fi, c, env, [*here, *_xfacts_of(ctx, fi, [fact_of(a, p) for a, p in fs], env)], list(via), op=op) for op, fs in alts]
+    plan = _plan_of_iter(ctx, fi, env, loop)
+    if plan is None:
+        raise AnalysisError(f"undecided: {fi.qualname} applies crypto steps in a loop over `{norm(loop.iter)}`, whose elements are not understood")
+    out = []
+    for el in plan.elems:
+        m = _elem_binding(fi, loop, el)
+        if m is None:
+            raise AnalysisError(f"undecided: element `{norm(el.expr)}` of the layer plan walked in {fi.qualname} is not unpacked into `{norm(loop.target)}`")
+        ealts = alts
+        if not ealts:
+            g, _, fx = m[c.func.id]
+            ealts = _op_alts(ctx, g, fx, fx) or []
+            ealts = [(op, [(g, a, p) for a, p in fs]) for op, fs in ealts]
+        else:
+            ealts = [(op, [(fi, a, p) for a, p in fs]) for op, fs in ealts]
+        for op, fs in ealts:
+            extra = []
+            for g, a, p in fs:
+                extra += _xfacts_of(ctx, g, [fact_of(a, p)], el.env if g is el.fi else env)
+            out.append(_Site(fi, c, env, [*here, *el.facts, *extra], list(via), op=op, elem=el, plan=plan, subst=m))
+    return out
+
+
+def _site_dir(ctx: Ctx, s: _Site) -> str:
+    """Canonical text of the direction argument of a step."""
+    d = arg(s.call, 1, "direction")
+    if s.subst and isinstance(d, ast.Name) and d.id in s.subst:
+        g, genv, e = s.subst[d.id]
+        return _dir_canon(ctx, g, e, genv, e)
+    return _dir_canon(ctx, s.fi, d, s.env, s.call)
+
+
+def _takes_sequence(ctx: Ctx, op: str) -> bool:
+    """encrypt_cell / decrypt_cell declare their hops as one sequence parameter instead of `*hops`."""
+    t = ctx.repo.method("PythonCryptoEndpoint", op, CR)
+    return t.node.args.vararg is None
+
+
+def _site_hops(ctx: Ctx, s: _Site) -> str:
+    """Canonical text of the hops arguments of a step: `a, b` for single hops, `*x` for a sequence of hops."""
+    parts = []
+    hop_args = list(s.call.args[2:]) + [k.value for k in s.call.keywords if k.arg == "hops"]
+    seq = _takes_sequence(ctx, s.op or call_name(s.call) or "encrypt_cell")
+    for a in hop_args:
+        star = isinstance(a, ast.Starred) or seq              # a sequence parameter is what `*` would have spread
+        v = a.value if isinstance(a, ast.Starred) else a
+        if seq and not (s.subst and isinstance(v, ast.Name) and v.id in s.subst):
+            e = strip_cast(_resolved(s.fi, v) if isinstance(v, ast.Name) and isinstance(_resolved(s.fi, v), (ast.Tuple, ast.List)) else v)
+            if isinstance(e, ast.Call) and isinstance(e.func, ast.Name) and e.func.id in ("tuple", "list") and len(e.args) == 1 and not e.keywords:
+                e = strip_cast(e.args[0])
+            if isinstance(e, (ast.Tuple, ast.List)) and not any(isinstance(x, ast.Starred) for x in e.elts):
+                parts += [norm(_expand(ctx, s.fi, x, s.env, at=s.call)) for x in e.elts]
+            else:
+                parts.append("*" + norm(_expand(ctx, s.fi, e, s.env, at=s.call)))
+            continue
+        if s.subst and isinstance(v, ast.Name) and v.id in s.subst:
+            g, genv, e = s.subst[v.id]
+            e = strip_cast(e)
+            if star and isinstance(e, ast.Call) and isinstance(e.func, ast.Name) and e.func.id in ("tuple", "list") and len(e.args) == 1 \
+                    and not e.keywords:
+                e = strip_cast(e.args[0])
+            if star and isinstance(e, (ast.Tuple, ast.List)) and not any(isinstance(x, ast.Starred) for x in e.elts):
+                parts += [norm(_expand(ctx, g, x, genv, at=x)) for x in e.elts]
+            else:
+                parts.append(("*" if star else "") + norm(_expand(ctx, g, e, genv, at=e)))
+        else:
+            parts.append(norm(_expand(ctx, s.fi, a, s.env, at=s.call)))
+    return ", ".join(parts)
+
+
+def _site_cell(ctx: Ctx, s: _Site) -> str | None:
+    a = arg(s.call, 0, "cell")
+    return None if a is None else norm(_expand(ctx, s.fi, a, s.env, at=s.call))
+
+
 # ------------------------------------------------------------------------------------ every path passes ... (following helpers)
+@dataclass
+class _Atom:
+    """Stands for a condition node when an edge predicate is asked about a test that is implied by the node's test."""
+    ast: ast.AST
+    kind: str = "cond"
+
+
 class _MustPass:
     """
     'Every path from entry to a target takes a good edge / completes a good node.'  The good construct may live in a helper of
@@ -309,8 +1073,9 @@ class _MustPass:
     the out-edge(s) for which every matching `return` of the helper is itself covered.
     """
 
-    def __init__(self, ctx: Ctx, good_edge=None, good_node=None, infeasible=None, subject=("cell",)) -> None:
+    def __init__(self, ctx: Ctx, good_edge=None, good_node=None, infeasible=None, subject=("cell",), plans: bool = False) -> None:
         self.ctx = ctx
+        self.plans = plans                  # a loop over a layer plan whose body is good runs at least once unless the plan can be empty
         self.subject = set(subject)         # a helper decides something only when it is handed (an expression over) one of these names
         self.good_edge = good_edge          # (fi, env, cfg, cond node, label) -> bool
         self.good_node = good_node          # (fi, env, cfg, node) -> bool
@@ -333,6 +1098,12 @@ class _MustPass:
             self.undecided.append(ex)
             return False
 
+    def _implies_good(self, fi: FuncInfo, env, cfg, e: ast.AST, truth: bool) -> bool:
+        """`e` having truthiness `truth` implies a fact that good_edge accepts (the test itself or one it is composed of)."""
+        if self.good_edge is None:
+            return False
+        return any(self.good_edge(fi, env, cfg, _Atom(a), p) for a, p in _derive(fi, e, truth))
+
     def _cuts(self, fi: FuncInfo, env, depth: int, skip=()):
         ctx = self.ctx
         cfg = ctx.cfg(fi)
@@ -343,8 +1114,12 @@ class _MustPass:
             if n.kind in ("stmt", "cond") and self.good_node is not None and self.good_node(fi, env, cfg, n):
                 cut_normal.add(n)
             if n.kind == "cond":
+                fixed = strip_cast(_expand(ctx, fi, n.ast, env)) if env else None     # a test of a parameter bound to a constant argument
                 for lab in (True, False):
-                    if (self.good_edge is not None and self.good_edge(fi, env, cfg, n, lab)) or \
+                    if isinstance(fixed, ast.Constant) and bool(fixed.value) is not lab:
+                        cut_edges.add((n, lab))
+                        continue
+                    if self._implies_good(fi, env, cfg, n.ast, lab) or \
                             (self.infeasible is not None and self.infeasible(fi, env, cfg, n, lab)):
                         cut_edges.add((n, lab))
                 c = _cond_call(ctx, fi, n)
@@ -353,11 +1128,45 @@ class _MustPass:
                     for lab in (True, False):
                         if self._guar(fi, c, t, env, lab, depth - 1):
                             cut_edges.add((n, lab))
+        # `for t in (A, B, C): if P(t): return`: when the loop is exhausted every iteration has come back to the loop head, so a test
+        # edge that every complete iteration takes holds for each element of the display
+        if self.good_edge is not None:
+            for n in cfg.nodes:
+                if n.kind != "loop" or not isinstance(n.ast, ast.For) or not isinstance(n.ast.target, ast.Name) or n.ast.orelse:
+                    continue
+                var = n.ast.target.id
+                elts = _literal_elts(fi, n.ast.iter)
+                if not elts or _bindings(fi, var) != 1:
+                    continue
+                body = [v for v, lab in n.succ if lab is True]
+                inside = cfg.reach(body, cut_nodes=[n])
+                for c in inside:
+                    if c.kind != "cond":
+                        continue
+                    for pol in (True, False):
+                        if n in cfg.reach(body, cut_edge=lambda u, v, lab, c=c, pol=pol: u is c and lab is pol):
+                            continue
+                        if any(self._implies_good(fi, env, cfg, _subst_name(c.ast, var, el), pol) for el in elts):
+                            cut_edges.add((n, False))
+        # `for problem in self._problems(cell): ...; return`: when every iteration leaves the function, the code after the loop runs
+        # only if the generator finished without yielding: what every such run of the generator establishes holds there
+        if depth > 0:
+            for n in cfg.nodes:
+                if n.kind != "loop" or not isinstance(n.ast, ast.For):
+                    continue
+                c = _resolved(fi, n.ast.iter)
+                t = _helper(ctx, fi, c) if isinstance(c, ast.Call) else None
+                if t is None or not any(isinstance(y, (ast.Yield, ast.YieldFrom)) for y in walk_no_nested(t.node)):
+                    continue
+                if n in cfg.reach([v for v, lab in n.succ if lab is True]):
+                    continue
+                if self._guar(fi, c, t, env, "empty", depth - 1):
+                    cut_edges.add((n, False))
         if depth > 0:
             for c in calls(fi):
                 t = _helper(ctx, fi, c)
-                if t is None:
-                    continue
+                if t is None or any(isinstance(y, (ast.Yield, ast.YieldFrom)) for y in walk_no_nested(t.node)):
+                    continue                # (calling a generator function runs none of its code)
                 full = None
                 for n in cfg.nodes_for(c):
                     if (n.kind == "cond" and n.ast is c) or n in skip:
@@ -368,31 +1177,83 @@ class _MustPass:
                         cut_normal.add(n)
         return cfg, cut_normal, cut_edges
 
-    def reach(self, fi: FuncInfo, env=None, depth: int = 2, skip=()):
+    def reach(self, fi: FuncInfo, env=None, depth: int = 2, skip=(), no_yield: bool = False):
         cfg, cut_normal, cut_edges = self._cuts(fi, env, depth, skip)
+        if no_yield:                        # only the paths on which the generator fi yields nothing
+            cut_normal |= {g for y in walk_no_nested(fi.node) if isinstance(y, (ast.Yield, ast.YieldFrom)) for g in cfg.nodes_for(y)}
 
         def is_cut(u, v, lab) -> bool:
             return (u, lab) in cut_edges or (u in cut_normal and lab != "exc")
-        return cfg, _flag_reach(self.ctx, fi, None, is_cut), is_cut
+        gates, marks = self._gates(fi, env, cfg, is_cut) if self.plans else (None, None)
+        return cfg, _flag_reach(self.ctx, fi, None, is_cut, env=env, gates=gates, marks=marks), is_cut
 
-    def holds_at(self, fi: FuncInfo, site: ast.AST) -> bool:
+    def _gates(self, fi: FuncInfo, env, cfg, is_cut) -> dict:
+        """{loop node: [{stable key: value}]}: for every `for` over a layer plan in which each iteration completes a good node, the
+        assignments under which the plan can be empty (no iteration).  An empty plan whose emptiness itself implies the good fact
+        needs no path: it is left out."""
+        ctx = self.ctx
+        gates, marks = {}, {}
+        for n in cfg.nodes:
+            if n.kind != "loop" or not isinstance(n.ast, ast.For):
+                continue
+            body = [v for v, lab in n.succ if lab is True]
+            if n in cfg.reach(body, cut_edge=is_cut):
+                continue
+            plan = _plan_of_iter(ctx, fi, env, n.ast)
+            if plan is None:
+                continue
+            # a plan held in a local of fi: the statements that make it empty / non-empty are remembered along the path
+            pkey = None
+            if plan.var is not None and plan.marks and all(g is fi for g, _, _ in plan.marks):
+                pkey = f"<plan {plan.var}>"
+                for _, st, val in plan.marks:
+                    for m in cfg.nodes_for(st):
+                        marks[m] = (pkey, val == "full")
+            es = []
+            for e in plan.empties:
+                if any(self._implies_good(g, genv, ctx.cfg(g), a, p) for g, genv, a, p in e):
+                    continue
+                d = {pkey: False} if pkey is not None else {}
+                for g, genv, a, p in e:
+                    for a2, p2 in _derive(g, a, p):
+                        kv = _stable_key(ctx, g, genv, a2, p2)
+                        if kv is not None:
+                            d[kv[0]] = kv[1]
+                es.append(d)
+            gates[n] = es
+        return gates, marks
+
+    def holds_for(self, s: _Site) -> bool:
+        """holds_at for a site that may live in a helper: in the role function before the helper is entered, or inside the helper."""
+        if not s.via:
+            return self.holds_at(s.fi, s.call)
+        return self.holds_at(s.via[0][0], s.via[0][1]) or self.holds_at(s.fi, s.call, s.env)
+
+    def holds_at(self, fi: FuncInfo, site: ast.AST, env=None) -> bool:
         self.undecided = []
         nodes = self.ctx.cfg(fi).nodes_for(site)
-        cfg, seen, _ = self.reach(fi, skip=nodes)
+        cfg, seen, _ = self.reach(fi, env, skip=nodes)
         ok = bool(nodes) and not any(n in seen for n in nodes)
         if not ok and self.undecided:
             raise self.undecided[0]
         return ok
 
     def guarantees(self, fi: FuncInfo, env, pol, depth: int) -> bool:
-        """Every normal exit of helper fi whose result may have truthiness pol (None: any) is covered."""
+        """Every normal exit of helper fi whose result may have truthiness pol (None: any) is covered.  pol == 'empty': fi is a
+        generator; every way to finish without having yielded anything is covered."""
         if any(isinstance(t, ast.Try) and t.finalbody for t in walk_no_nested(fi.node)):
             raise AnalysisError(f"undecided: helper {fi.qualname} returns through a finally block")
-        cfg, seen, is_cut = self.reach(fi, env, depth)
+        cfg, seen, is_cut = self.reach(fi, env, depth, no_yield=pol == "empty")
         for n in seen:
             for v, lab in n.succ:
                 if v is cfg.exit and lab != "exc" and not is_cut(n, v, lab):
+                    if pol == "empty":
+                        return False
                     if pol is None or pol in _exit_truth(self.ctx, fi, n, seen):
+                        # `return <test>`: the result has truthiness pol only if the test has, which may itself imply the good fact
+                        if pol is not None and n.kind == "stmt" and isinstance(n.ast, ast.Return) and n.ast.value is not None \
+                                and self._implies_good(fi, env, cfg, n.ast.value, pol):
+                            continue
                         return False
         return True
 
@@ -424,10 +1285,62 @@ def _flags(fi: FuncInfo) -> list[str]:
     return out
 
 
-def _flag_reach(ctx: Ctx, fi: FuncInfo, starts=None, cut_edge=None) -> dict:
-    """Forward reachability that remembers the current value of every constant flag and does not take the branch of `if flag` /
-    `if not flag` that contradicts it.  Returns {node: set of flag-value tuples}; `in` works as for a set of nodes.
-    starts: nodes, or (node, flag-value tuple) pairs to continue from a known state."""
+def _stable_key(ctx: Ctx, fi: FuncInfo, env, atom: ast.AST, truth: bool, stored=()):
+    """(key, value) when `atom` having truthiness `truth` fixes the truthiness of a value that cannot change while fi runs: a
+    local / parameter bound once or an attribute chain of one that fi does not store to (reads of routing objects and of the cell
+    header are not interleaved with writes: fi is synchronous and the steps in between only replace cell.message)."""
+    f = fact_of(atom, truth)
+    if f.op == "truthy":
+        subj, val, none_test = f.left, f.pos, False
+    elif f.op == "is" and isinstance(f.right, ast.Constant) and f.right.value is None:
+        subj, val, none_test = f.left, not f.pos, True
+    else:
+        return None
+    subj = strip_cast(subj)
+    if not isinstance(subj, (ast.Name, ast.Attribute)) or not all(_fixed_name(fi, nm) for nm in names_in(subj)):
+        return None
+    x = _expand(ctx, fi, subj, env, at=atom)
+    if chain(x) is None or not _is_pure_alias(x) or any(isinstance(n, ast.Attribute) and n.attr in stored for n in ast.walk(x)):
+        return None
+    key = norm(x)
+    if none_test and key not in OBJECT_OR_NONE:
+        key += " is not None"
+    return key, val
+
+
+def _fixed_name(fi: FuncInfo, name: str) -> bool:
+    """The name has one value during a call of fi: a parameter that is never re-bound, or a local bound by one plain assignment
+    that is not inside a loop (a loop variable or an assignment in a loop body takes a new value per iteration)."""
+    defs = [(st, v) for st, v, idx in local_defs(fi, name)
+            if not (idx is None and v is not None and isinstance(strip_cast(v), ast.Name) and strip_cast(v).id == name)]
+    if is_param(fi, name):
+        return not defs
+    if len(defs) != 1 or not isinstance(defs[0][0], (ast.Assign, ast.AnnAssign)):
+        return False
+    return not any(isinstance(a, (ast.For, ast.AsyncFor, ast.While)) for a in ancestors(defs[0][0]) if a is not fi.node)
+
+
+def _stable_conds(ctx: Ctx, fi: FuncInfo, env) -> dict:
+    """{cond node: (key, value on its True edge)} for the tests of fi that _stable_key understands."""
+    cfg = ctx.cfg(fi)
+    if any(isinstance(n, (ast.Await, ast.Yield, ast.YieldFrom)) for n in walk_no_nested(fi.node)):
+        return {}
+    stored = {n.attr for n in walk_no_nested(fi.node) if isinstance(n, ast.Attribute) and isinstance(n.ctx, (ast.Store, ast.Del))}
+    out = {}
+    for n in cfg.nodes:
+        if n.kind == "cond":
+            kv = _stable_key(ctx, fi, env, n.ast, True, stored)
+            if kv is not None:
+                out[n] = kv
+    return out
+
+
+def _flag_reach(ctx: Ctx, fi: FuncInfo, starts=None, cut_edge=None, env=None, gates=None, marks=None) -> dict:
+    """Forward reachability that remembers (a) the current value of every constant flag and (b) the outcome of every test of a
+    value that cannot change during the call (_stable_key), and does not take a branch that contradicts what it remembers.
+    gates: {loop node: [{key: value}]} - the loop can be left without an iteration only in a state compatible with one of the
+    given assignments (which is then remembered); an empty list closes that edge.
+    Returns {node: set of states}; `in` works as for a set of nodes.  starts: nodes, or (node, state) pairs."""
     cfg = ctx.cfg(fi)
     flags = _flags(fi)
     defnode = {}
@@ -435,11 +1348,28 @@ def _flag_reach(ctx: Ctx, fi: FuncInfo, starts=None, cut_edge=None) -> dict:
         for st, v, _ in local_defs(fi, nm):
             for n in cfg.nodes_for(st):
                 defnode[n] = (i, v.value)
-    init = tuple(_UNSET for _ in flags)
+    flagtest = {}                      # cond node -> (flag index, the test as a fact about the flag): `if ok`, `if tag == 'x'`, `if tag is None`
+    for n in cfg.nodes:
+        if n.kind == "cond" and flags:
+            f = fact_of(n.ast, True)
+            x = strip_cast(f.left)
+            if isinstance(x, ast.Name) and x.id in flags and _satisfies(f, 0) is not None:
+                flagtest[n] = (flags.index(x.id), f)
+    conds = _stable_conds(ctx, fi, env)
+    count: dict = {}
+    for k, _ in conds.values():
+        count[k] = count.get(k, 0) + 1
+    wanted = {k for k, c in count.items() if c > 1} | {k for es in (gates or {}).values() for e in es for k in e} | \
+        {k for k, _ in (marks or {}).values()}
+    keys = sorted(wanted)
+    kidx = {k: len(flags) + i for i, k in enumerate(keys)}
+    init = tuple(_UNSET for _ in range(len(flags) + len(keys)))
     todo = [x if isinstance(x, tuple) else (x, init) for x in ([cfg.entry] if starts is None else starts)]
     seen: dict = {}
     while todo:
         u, st = todo.pop()
+        if len(st) != len(init):
+            st = tuple(st[:len(flags)]) + init[len(flags):]
         if st in seen.setdefault(u, set()):
             continue
         seen[u].add(st)
@@ -450,10 +1380,27 @@ def _flag_reach(ctx: Ctx, fi: FuncInfo, starts=None, cut_edge=None) -> dict:
             if u in defnode and lab != "exc":
                 i, val = defnode[u]
                 st2 = st[:i] + (val,) + st[i + 1:]
-            if u.kind == "cond" and isinstance(u.ast, ast.Name) and u.ast.id in flags and lab in (True, False):
-                val = st[flags.index(u.ast.id)]
-                if val is not _UNSET and bool(val) is not lab:
+            if marks and u in marks and lab != "exc":      # marks: {node: (key, value)} - completing the node sets the key
+                k, val = marks[u]
+                st2 = st2[:kidx[k]] + (val,) + st2[kidx[k] + 1:]
+            if u in flagtest and lab in (True, False):
+                i, f = flagtest[u]
+                if st[i] is not _UNSET and _satisfies(f, st[i]) is not lab:
                     continue
+            if u in conds and lab in (True, False) and conds[u][0] in kidx:
+                k, on_true = conds[u]
+                val = on_true if lab else not on_true
+                if st2[kidx[k]] is not _UNSET and st2[kidx[k]] is not val:
+                    continue
+                st2 = st2[:kidx[k]] + (val,) + st2[kidx[k] + 1:]
+            if gates and u in gates and lab is False:
+                for e in gates[u]:
+                    if all(st2[kidx[k]] is _UNSET or st2[kidx[k]] is val for k, val in e.items()):
+                        st3 = list(st2)
+                        for k, val in e.items():
+                            st3[kidx[k]] = val
+                        todo.append((v, tuple(st3)))
+                continue
             todo.append((v, st2))
     return seen
 
@@ -473,10 +1420,48 @@ def _exit_truth(ctx: Ctx, fi: FuncInfo, n, seen: dict | None = None) -> set:
 
 
 def _is_crypto_node(ctx: Ctx, fi: FuncInfo, env, cfg, n) -> bool:
-    for c in calls(fi, CRYPTO_OPS):
-        if n in cfg.nodes_for(c) and norm(_expand(ctx, fi, arg(c, 0), env)) == "cell":
-            return True
-    return False
+    """n evaluates an encrypt_cell / decrypt_cell step (called directly or through a callable picked at run time) on the cell."""
+    memo = getattr(ctx, "_c04_crypto_nodes", None)
+    if memo is None:
+        memo = ctx._c04_crypto_nodes = {}  # type: ignore[attr-defined]
+    key = (id(fi.node), tuple(sorted((k, norm(v)) for k, v in (env or {}).items())))
+    if key not in memo:
+        memo[key] = {m for c in calls(fi) if _is_crypto_call(ctx, fi, c) and arg(c, 0, "cell") is not None
+                     and norm(_expand(ctx, fi, arg(c, 0, "cell"), env)) == "cell" for m in cfg.nodes_for(c)}
+    return n in memo[key]
+
+
+def _plaintext_edge(ctx: Ctx, fi: FuncInfo, env, n, lab) -> bool:
+    f = fact_of(n.ast, lab)
+    return f.op == "truthy" and f.pos and _xchain(ctx, fi, f.left, env) == "cell.plaintext"
+
+
+def _missing_dispatch_edge(ctx: Ctx, fi: FuncInfo, env, n, lab) -> bool:
+    """Edge `x is None` / `not x` for `x = {FORWARD: ..., BACKWARD: ...}.get(<a relay direction>)`: a relay direction is FORWARD or
+    BACKWARD (construction sites checked in rule_duality), so the lookup finds an entry."""
+    f = fact_of(n.ast, lab)
+    if f.op == "in" and not f.pos:
+        # `<a relay direction> not in {FORWARD: ..., BACKWARD: ...}` / `not in (FORWARD, BACKWARD)`
+        disp = _dict_display(fi, f.right)
+        if disp is not None and any(_op_alts(ctx, fi, v, n.ast) is None for v in disp.values):
+            return False
+        elts = list(disp.keys) if disp is not None else _literal_elts(fi, f.right)
+        return elts is not None and {"FORWARD", "BACKWARD"} <= {norm(_expand(ctx, fi, k, env)) for k in elts} \
+            and (_xchain(ctx, fi, f.left, env) or "").endswith(".direction")
+    none = (f.op == "truthy" and not f.pos) or (f.op == "is" and f.pos and isinstance(f.right, ast.Constant) and f.right.value is None)
+    if not none:
+        return False
+    v = strip_cast(f.left)
+    if isinstance(v, ast.Name):
+        d = single_def(fi, v.id) if _bindings(fi, v.id) == 1 else None
+        v = strip_cast(d[0]) if d is not None and d[1] is None else None
+    if not (isinstance(v, ast.Call) and isinstance(v.func, ast.Attribute) and v.func.attr == "get" and len(v.args) == 1 and not v.keywords):
+        return False
+    disp = _dict_display(fi, v.func.value)
+    if disp is None or not _op_alts(ctx, fi, v, n.ast):
+        return False
+    keys = {norm(_expand(ctx, fi, k, env)) for k in disp.keys}
+    return {"FORWARD", "BACKWARD"} <= keys and (_xchain(ctx, fi, v.args[0], env) or "").endswith(".direction")
 
 
 def _not_plaintext_edge(ctx: Ctx, fi: FuncInfo, env, n, lab) -> bool:
@@ -524,6 +1509,11 @@ EXPECTED = {
 OBJECT_OR_NONE = {"circuit", "exit_socket", "relay", "circuit.hs_session_keys"}
 
 
+def _eq_text(f: Fact):
+    a, b = norm(f.left), norm(f.right)
+    return (b, a) if _is_const_name(a) and not _is_const_name(b) else (a, b)
+
+
 def _role_sets(facts):
     """(+roles, -roles, equalities) of expanded facts; `x is not None` counts as x present (table objects are never falsy)."""
     pos, neg, eq = set(), set(), set()
@@ -555,34 +1545,168 @@ def _after(cfg, first_nodes, then_nodes) -> bool:
     return bool(first_nodes) and bool(then_nodes) and all(h in r1 for h in then_nodes) and not any(e in r2 for e in first_nodes)
 
 
+def _index_walk(fi: FuncInfo, loop: ast.For, base: str | None):
+    """(order, element locals) for `for i in range(...): hop = <base>[f(i)]`: 'forward' / 'reversed' when the indices visit every
+    element of the sequence once in that order (decided on exact polynomials in i and len(base)), else None."""
+    from ..poly import Poly, eval_expr
+    it = strip_cast(loop.iter)
+    if base is None or not (isinstance(it, ast.Call) and chain(it.func) == "range" and 1 <= len(it.args) <= 3 and not it.keywords) \
+            or not isinstance(loop.target, ast.Name) or _bindings(fi, base) != 1:
+        return None
+    ivar = loop.target.id
+
+    def sym(e):
+        e = strip_cast(e)
+        if isinstance(e, ast.Call) and chain(e.func) == "len" and len(e.args) == 1 and chain(e.args[0]) == base:
+            return "N"
+        return None
+
+    def poly(e):
+        e = strip_cast(e)
+        if isinstance(e, ast.UnaryOp) and isinstance(e.op, ast.Invert):
+            return -poly(e.operand) - Poly.const(1)
+        if isinstance(e, ast.Name) and e.id != ivar and _bindings(fi, e.id) == 1 and single_def(fi, e.id) is not None \
+                and single_def(fi, e.id)[1] is None:
+            return poly(single_def(fi, e.id)[0])
+        if isinstance(e, ast.BinOp) and isinstance(e.op, (ast.Add, ast.Sub, ast.Mult)):
+            l, r = poly(e.left), poly(e.right)
+            return l + r if isinstance(e.op, ast.Add) else l - r if isinstance(e.op, ast.Sub) else l * r
+        if isinstance(e, ast.UnaryOp) and isinstance(e.op, ast.USub):
+            return -poly(e.operand)
+        return eval_expr(e, {ivar: Poly.var("i")}, sym)
+
+    try:
+        a = [poly(x) for x in it.args]
+        start, stop, step = (Poly.const(0), a[0], Poly.const(1)) if len(a) == 1 else (a[0], a[1], Poly.const(1)) if len(a) == 2 else a
+        idx, elems = None, set()
+        for n in ast.walk(loop):
+            if isinstance(n, ast.Subscript) and chain(n.value) == base and isinstance(n.ctx, ast.Load) and ivar in names_in(n.slice):
+                q = poly(n.slice)
+                if not any("N" in k for k in q.t) and q.subst({"i": Poly.const(0)}).t.get((), 0) < 0:
+                    q = q + Poly.var("N")                      # negative indices count from the end
+                if idx is not None and q != idx:
+                    return None
+                idx = q
+                st = enclosing_stmt(n)
+                if isinstance(st, ast.Assign) and st.value is n and len(st.targets) == 1 and isinstance(st.targets[0], ast.Name) \
+                        and _bindings(fi, st.targets[0].id) == 1:
+                    elems.add(st.targets[0].id)
+    except AnalysisError:
+        return None
+    if idx is None:
+        return None
+    n_, i_, one = Poly.var("N"), Poly.var("i"), Poly.const(1)
+    up = start == Poly.const(0) and stop == n_ and step == one
+    down = start == n_ - one and stop == Poly.const(-1) and step == Poly.const(-1)
+    if not (up or down):
+        return None
+    if idx == i_:
+        return ("forward" if up else "reversed"), elems
+    if idx == n_ - one - i_:
+        return ("reversed" if up else "forward"), elems
+    return None
+
+
+def _iter_order(fi: FuncInfo, it: ast.AST, base: str | None, depth: int = 5) -> str | None:
+    """'forward' / 'reversed': order in which iterating `it` visits the elements of sequence `base` (every element once);
+    None when the expression is not understood."""
+    flip = {"forward": "reversed", "reversed": "forward", None: None}
+    it = strip_cast(it)
+    if depth <= 0 or base is None:
+        return None
+    if isinstance(it, ast.Name):
+        if it.id == base:
+            return "forward" if _bindings(fi, base) == 1 else None
+        d = single_def(fi, it.id)
+        if d is not None and d[1] is None and _bindings(fi, it.id) == 1:
+            return _iter_order(fi, d[0], base, depth - 1)
+        return None
+    if isinstance(it, ast.Call) and isinstance(it.func, ast.Name) and it.args and not isinstance(it.args[0], ast.Starred):
+        if it.func.id == "enumerate" and len(it.args) <= 2 and all(k.arg == "start" for k in it.keywords):
+            return _iter_order(fi, it.args[0], base, depth - 1)
+        if it.func.id in ("list", "tuple", "iter") and len(it.args) == 1 and not it.keywords:
+            return _iter_order(fi, it.args[0], base, depth - 1)
+        if it.func.id == "reversed" and len(it.args) == 1 and not it.keywords:
+            return flip[_iter_order(fi, it.args[0], base, depth - 1)]
+        if it.func.id == "zip" and not any(isinstance(a, ast.Starred) for a in it.args):
+            # zip(<counter>, <the hops in some order>): the other iterables only number the layers (the shortest one ends the walk:
+            # they must be unbounded or as long as the hops)
+            mine = [a for a in it.args if base in names_in(a) and chain(strip_cast(a)) != "range" and
+                    not (isinstance(strip_cast(a), ast.Call) and chain(strip_cast(a).func) == "range")]
+            rest = [a for a in it.args if not any(a is m for m in mine)]
+            full = all(isinstance(strip_cast(a), ast.Call) and (chain(strip_cast(a).func) in ("count", "itertools.count") or
+                                                                (chain(strip_cast(a).func) == "range" and len(strip_cast(a).args) <= 2
+                                                                 and f"len({base})" in norm(strip_cast(a).args[-1]))) for a in rest)
+            if len(mine) == 1 and full and all(k.arg == "strict" for k in it.keywords):
+                return _iter_order(fi, mine[0], base, depth - 1)
+        return None
+    if isinstance(it, ast.Subscript) and isinstance(it.slice, ast.Slice) and it.slice.lower is None and it.slice.upper is None:
+        step = it.slice.step
+        if isinstance(step, ast.UnaryOp) and isinstance(step.op, ast.USub) and isinstance(step.operand, ast.Constant):
+            step = ast.Constant(value=-step.operand.value)
+        inner = _iter_order(fi, it.value, base, depth - 1)
+        if step is None or (isinstance(step, ast.Constant) and step.value == 1):
+            return inner
+        if isinstance(step, ast.Constant) and step.value == -1:
+            return flip[inner]
+    return None
+
+
+def _contradictory(facts) -> bool:
+    """The (expanded) facts test a constant against its own value: `if sending:` in a helper called with sending=False."""
+    for f in facts:
+        l = strip_cast(f.left)
+        if f.op == "truthy" and isinstance(l, ast.Constant) and bool(l.value) is not f.pos:
+            return True
+        r = strip_cast(f.right) if f.right is not None else None
+        if f.op in ("eq", "is") and isinstance(l, ast.Constant) and isinstance(r, ast.Constant) and (l.value == r.value) is not f.pos:
+            return True
+    return False
+
+
 def rule_duality(ctx: Ctx) -> None:
     repo = ctx.repo
     covered = set()
+    units = {fname: _unit(ctx, repo.method("PythonCryptoEndpoint", fname, CR)) for fname in EXPECTED}
+    members = [g for u in units.values() for g in u]           # a helper may serve several role functions: each analyses it under its own arguments
     for fname, table in EXPECTED.items():
         fi = repo.method("PythonCryptoEndpoint", fname, CR)
         cfg = ctx.cfg(fi)
-        unit = _unit(ctx, fi)
+        unit = units[fname]
         covered.update(g.node for g in unit)
         for g in unit[1:]:
             outside = sorted({(c_fi.qualname if c_fi is not None else m.relpath) for m, c_fi, c in _callers(ctx, g.name)
-                              if c_fi is None or c_fi not in unit})
-            ctx.check(not outside, "direction-duality", g, g.node, f"{fname}: helper {g.name} is called from {fname} only",
+                              if c_fi is None or c_fi not in members})
+            ctx.check(not outside, "direction-duality", g, g.node, f"{fname}: helper {g.name} is called from the role functions only",
                       f"{g.qualname} performs crypto steps of {fname} but is also called from {outside}: these steps run under a role "
                       "the protocol table does not cover")
         found = {}
         for s in _crypto_sites(ctx, fi):
+            if _contradictory(s.facts):
+                continue                    # a branch of a shared helper that the constant arguments of this role function rule out
             c = s.call
-            op = call_name(c)
-            d = _dir_canon(ctx, s.fi, arg(c, 1), s.env, c)
-            hops = ", ".join(norm(_expand(ctx, s.fi, a, s.env, at=c)) for a in c.args[2:])
+            op = s.op or call_name(c)
+            d = _site_dir(ctx, s)
+            hops = _site_hops(ctx, s)
             pos, neg, eq = _role_sets(s.facts)
             key = (op, d, hops)
             found.setdefault(key, s)
             exp = table.get(key)
-            ok = exp is not None and exp[0] <= pos and exp[1] <= neg and norm(_expand(ctx, s.fi, arg(c, 0), s.env, at=c)) == "cell"
+            if not (exp is not None and exp[0] <= pos and exp[1] <= neg) and d in ("FORWARD", "BACKWARD"):
+                # a constant written where the reviewed code passes `<route>.direction`, under a test that pins that direction to
+                # the constant: the same step
+                flip = "BACKWARD" if d == "FORWARD" else "FORWARD"
+                for (o2, d2, h2), exp2 in table.items():
+                    if o2 == op and h2 == hops and d2.endswith(".direction") and \
+                            ((d2, d) in eq or any(f.op == "eq" and not f.pos and _eq_text(f) == (d2, flip) for f in s.facts)):
+                        key, d, exp = (o2, d2, h2), d2, exp2
+                        found.setdefault(key, s)
+            ok = exp is not None and exp[0] <= pos and exp[1] <= neg and _site_cell(ctx, s) == "cell"
             if fname == "relay_cell" and d == "next_relay.direction" and ok:
-                want = "FORWARD" if op == "decrypt_cell" else "BACKWARD"
-                ok = ("next_relay.direction", want) in eq
+                # the direction of a relay route is FORWARD or BACKWARD (construction sites checked below): `!= one` is `== other`
+                want, other = ("FORWARD", "BACKWARD") if op == "decrypt_cell" else ("BACKWARD", "FORWARD")
+                ok = ("next_relay.direction", want) in eq or \
+                    any(f.op == "eq" and not f.pos and _eq_text(f) == ("next_relay.direction", other) for f in s.facts)
             ctx.check(ok, "direction-duality", s.fi, c, f"{fname}: {op}(dir={d}, hops={hops}) under role +{sorted(pos)} -{sorted(neg)}",
                       f"{fname}: crypto step {op}(direction={d}, hops={hops}) under role +{sorted(pos)} -{sorted(neg)} is not a row of the "
                       "onion protocol table (wrong operation, direction, key set or role)")
@@ -593,7 +1717,24 @@ def rule_duality(ctx: Ctx) -> None:
         if fname in ("outgoing_crypto", "incoming_crypto"):
             e2e = [x for k, x in found.items() if k[2].startswith("Hop(")]
             hopl = [x for k, x in found.items() if k[2] == "*circuit.hops"]
-            if e2e and hopl:
+            if e2e and hopl and e2e[0].plan is not None and e2e[0].plan is hopl[0].plan:
+                # both layers are elements of one plan that a single loop applies in order
+                a, b, plan = e2e[0].elem, hopl[0].elem, e2e[0].plan
+                if not plan.ordered or a.fi is not b.fi:
+                    raise AnalysisError(f"undecided: order of the elements of the layer plan of {fname}")
+                if a.node is b.node:
+                    first = a.index < b.index
+                    strict = a.index != b.index
+                else:
+                    pcfg = ctx.cfg(a.fi)
+                    first = _after(pcfg, pcfg.nodes_for(a.node), pcfg.nodes_for(b.node))
+                    strict = first or _after(pcfg, pcfg.nodes_for(b.node), pcfg.nodes_for(a.node))
+                e2e_first = first != plan.flipped
+                what = "sending: e2e layer applied before (inside) the hop layers" if fname == "outgoing_crypto" else \
+                    "receiving: hop layers removed before the e2e layer"
+                ctx.check(strict and e2e_first == (fname == "outgoing_crypto"), "direction-duality", e2e[0].fi, e2e[0].call, what,
+                          f"{fname}: order of the end-to-end layer and the hop layers is wrong ({what})")
+            elif e2e and hopl:
                 k = 0
                 while k < len(e2e[0].via) and k < len(hopl[0].via) and e2e[0].via[k][1] is hopl[0].via[k][1]:
                     k += 1
@@ -615,6 +1756,18 @@ def rule_duality(ctx: Ctx) -> None:
                       f"{op} called inside outgoing_crypto / incoming_crypto / relay_cell (or a helper of theirs)",
                       f"{op} is called outside outgoing_crypto / incoming_crypto / relay_cell: a layer is added or removed at a place "
                       "the protocol table does not describe")
+    # ... and every other mention of the two methods (a dispatch table entry, a conditional callable) was understood as one
+    for m in repo.modules.values():
+        for node in ast.walk(m.tree):
+            if isinstance(node, ast.Attribute) and node.attr in OPS and isinstance(node.ctx, ast.Load) \
+                    and not (isinstance(parent_of(node), ast.Call) and parent_of(node).func is node):
+                c_fi = repo.function_of(node)
+                inside = c_fi is not None and c_fi.node in covered
+                ctx.check(inside, "direction-duality", c_fi or m.relpath, node, f"{node.attr} referenced inside the role functions",
+                          f"{node.attr} is handed around outside outgoing_crypto / incoming_crypto / relay_cell: a layer can be added or removed at a "
+                          "place the protocol table does not describe")
+                if inside:
+                    ctx._c04_refs = [*getattr(ctx, "_c04_refs", []), (c_fi, node)]  # type: ignore[attr-defined]  (see _refs_understood)
     # direction values of relay routes are FORWARD/BACKWARD constants at every construction site
     n = 0
     for m, fi, c in _callers(ctx, "RelayRoute"):
@@ -622,14 +1775,16 @@ def rule_duality(ctx: Ctx) -> None:
             continue
         n += 1
         d = arg(c, 2, "direction")
-        ctx.check(d is not None and chain(d) in ("FORWARD", "BACKWARD"), "direction-duality", fi, c,
+        ctx.check(d is not None and _xchain(ctx, fi, d, at=c) in ("FORWARD", "BACKWARD"), "direction-duality", fi, c,
                   f"RelayRoute constructed with direction {norm(d) if d is not None else None}",
                   "a relay route is constructed with a direction that is not FORWARD/BACKWARD")
     ctx.floor("direction-duality.relayroute", n, 4)
     # on_created: backward route points to the requester, forward route to the new hop, both with the hop's session keys
     oc = repo.method("TunnelCommunity", "on_created", TC)
-    rr = [c for c in calls(oc, "RelayRoute")]
-    pairs = {chain(arg(c, 2)): norm(arg(c, 0)) for c in rr}
+    rr = _sites(ctx, oc, _callee(ctx, "RelayRoute"), _new_helper)
+    pairs = {_xchain(ctx, s.fi, arg(s.call, 2, "direction"), s.env, at=s.call):
+             (norm(_expand(ctx, s.fi, arg(s.call, 0, "circuit_id"), s.env, at=s.call)) if arg(s.call, 0, "circuit_id") is not None else None)
+             for s in rr}
     ctx.check(pairs == {"BACKWARD": "request.from_circuit_id", "FORWARD": "request.to_circuit_id"}, "direction-duality", oc, oc.node,
               "on_created builds BACKWARD route -> from_circuit and FORWARD route -> to_circuit",
               f"relay routes built in on_created have the wrong direction/circuit pairing: {pairs}")
@@ -645,19 +1800,20 @@ def rule_duality(ctx: Ctx) -> None:
         loops = [l for l in walk_no_nested(fi.node) if isinstance(l, ast.For)]
         ctx.anchor(loops, f"hop loop in {name}")
         lp = loops[0]
-        it = lp.iter
-        if isinstance(it, ast.Call) and chain(it.func) == "enumerate":
-            it = it.args[0]
-        hops_param = fi.node.args.vararg.arg if fi.node.args.vararg else None
-        if order == "reversed":
-            ok = isinstance(it, ast.Call) and chain(it.func) == "reversed" and chain(it.args[0]) == hops_param
-        else:
-            ok = chain(it) == hops_param
-        ctx.check(ok, "direction-duality", fi, lp, f"{name} iterates hops {order}",
+        hops_param = fi.node.args.vararg.arg if fi.node.args.vararg else (fi.params()[3] if len(fi.params()) == 4 else None)
+        got = _iter_order(fi, lp.iter, hops_param)
+        elem_vars = set()
+        if got is None:
+            iw = _index_walk(fi, lp, hops_param)
+            if iw is not None:
+                got, elem_vars = iw
+        if got is None:
+            raise AnalysisError(f"undecided: order in which {name} walks the hops (`{norm(lp.iter)}`)")
+        ctx.check(got == order, "direction-duality", fi, lp, f"{name} iterates hops {order}",
                   f"{name} must iterate the hops {'last-to-first (first hop outermost)' if order == 'reversed' else 'first-to-last'}")
         prims = [c for c in calls(fi) if call_name(c) == prim]
         ctx.anchor(prims, f"{prim} in {name}")
-        loop_vars = names_in(lp.target)
+        loop_vars = (names_in(lp.target) - {lp.target.id} if elem_vars and isinstance(lp.target, ast.Name) else names_in(lp.target)) | elem_vars
         for c in prims:
             st = enclosing_stmt(c)
             recv = _expand(ctx, fi, c.func.value, at=c) if isinstance(c.func, ast.Attribute) else None
@@ -710,8 +1866,11 @@ def rule_duality(ctx: Ctx) -> None:
                       "out of process_cell into the transport instead of dropping the cell")
             for h in (tr.handlers if tr is not None else []):
                 raises = [s for s in ast.walk(h) if isinstance(s, ast.Raise)]
-                ok = bool(raises) and all(s.exc is not None and (chain(s.exc) == "CryptoException" or
-                                                                (isinstance(s.exc, ast.Call) and chain(s.exc.func) == "CryptoException"))
+                # `except CryptoException: raise` passes the CryptoException on unchanged
+                passes_on = chain(h.type) == "CryptoException" if h.type is not None else False
+                ok = bool(raises) and all((s.exc is None and passes_on) or
+                                          (s.exc is not None and (chain(s.exc) == "CryptoException" or
+                                                                  (isinstance(s.exc, ast.Call) and chain(s.exc.func) == "CryptoException")))
                                           for s in raises) and cfg_handler_always_raises(ctx, fi, h)
                 ctx.check(ok, "drop-on-failure", fi, h, f"{name}: AEAD failure re-raised as CryptoException",
                           f"{name} swallows an authentication failure of the AEAD layer")
@@ -732,56 +1891,104 @@ def cfg_handler_always_raises(ctx: Ctx, fi: FuncInfo, h: ast.ExceptHandler) -> b
     return bool(hn)
 
 
+def parent_of(node: ast.AST):
+    from ..model import parent
+    return parent(node)
+
+
+def _allowed_member(ctx: Ctx, fi: FuncInfo | None, allowed: set, _seen=()) -> bool:
+    """fi is one of the allowed functions, or a NEW helper that is reachable only from them (called, never passed around)."""
+    if fi is None:
+        return False
+    if fi.qualname in allowed:
+        return True
+    if not _is_new(fi) or fi in _seen:
+        return False
+    callers = [c_fi for _, c_fi, _ in _callers(ctx, fi.name)]
+    passed = [n for m in ctx.repo.modules.values() for n in ast.walk(m.tree)
+              if isinstance(n, ast.Attribute) and n.attr == fi.name and isinstance(n.ctx, ast.Load)
+              and not (isinstance(parent_of(n), ast.Call) and parent_of(n).func is n)]
+    return bool(callers) and not passed and all(_allowed_member(ctx, c, allowed, (*_seen, fi)) for c in callers)
+
+
+def _whitelist_flag(ctx: Ctx, fi: FuncInfo, v: ast.AST, at: ast.AST) -> bool:
+    """Value v (in fi: TunnelCommunity.send_cell or a helper of it) is true only if `payload.msg_id in NO_CRYPTO_PACKETS`."""
+    if fi.qualname == "TunnelCommunity.send_cell":
+        envs = [None]
+    else:
+        envs = []
+        for _, c_fi, c in _callers(ctx, fi.name):
+            if c_fi is None or c_fi.qualname != "TunnelCommunity.send_cell":
+                raise AnalysisError(f"undecided: plaintext flag set in {fi.qualname}, a helper that send_cell reaches only indirectly")
+            envs.append(_bind(ctx, c_fi, c, fi, None))
+    for env in envs:
+        implied = [fact_of(a, p) for a, p in _derive(None, _expand(ctx, fi, v, env, at=at), True)]
+        if not any(f.op == "in" and f.pos and norm(f.left) == "payload.msg_id" and chain(f.right) == "NO_CRYPTO_PACKETS" for f in implied):
+            return False
+    return bool(envs)
+
+
 def rule_plaintext(ctx: Ctx) -> None:
     repo = ctx.repo
     pm = repo.module(PL)
     ncp = pm.constants.get("NO_CRYPTO_PACKETS")
     ctx.anchor(ncp, "NO_CRYPTO_PACKETS")
-    names = [norm(e) for e in ncp.elts] if isinstance(ncp, (ast.List, ast.Tuple)) else []
-    vals = repo.resolve_const(pm, ncp)
+    disp = ncp
+    while isinstance(disp, ast.Call) and isinstance(disp.func, ast.Name) and disp.func.id in ("frozenset", "set", "tuple", "list") \
+            and len(disp.args) == 1 and not disp.keywords:
+        disp = disp.args[0]
+    elts = _literal_elts(None, disp) or []
+    names = [norm(e) for e in elts]
+    vals = [repo.resolve_const(pm, e) for e in elts]
+    vals = vals if all(isinstance(v, int) for v in vals) else ["<non-constant>"]
     ctx.check(sorted(names) == ["CreatePayload.msg_id", "CreatedPayload.msg_id"] and sorted(vals) == [2, 3], "plaintext-whitelist", PL, ncp,
               "NO_CRYPTO_PACKETS == [create, created]", f"the set of message types that may travel unencrypted is {names} = {vals}")
-    # who sets plaintext
-    n = 0
+    # who sets plaintext: the attribute is stored / the constructor argument is given only by TunnelCommunity.send_cell (or a new
+    # helper that only it calls), with the value `payload.msg_id in NO_CRYPTO_PACKETS`; the constructor itself copies its parameter
+    setters = []                      # (function | None, module, statement / call, value)
     for m in repo.modules.values():
         for node in ast.walk(m.tree):
             if isinstance(node, ast.Attribute) and node.attr == "plaintext" and isinstance(node.ctx, ast.Store):
-                fi = repo.function_of(node)
                 st = enclosing_stmt(node)
-                n += 1
-                if fi is not None and fi.qualname == "CellPayload.__init__":
-                    ok = isinstance(st, ast.Assign) and chain(st.value) == "plaintext"
-                elif fi is not None and fi.qualname == "TunnelCommunity.send_cell":
-                    v = st.value if isinstance(st, ast.Assign) else None
-                    ok = isinstance(v, ast.Compare) and isinstance(v.ops[0], ast.In) and norm(v.left) == "payload.msg_id" \
-                        and chain(v.comparators[0]) == "NO_CRYPTO_PACKETS"
-                else:
-                    ok = False
-                ctx.check(ok, "plaintext-whitelist", fi or m.relpath, st, "plaintext flag set only from msg_id in NO_CRYPTO_PACKETS",
-                          "the plaintext flag of an outgoing cell is set by something other than membership in NO_CRYPTO_PACKETS")
-    ctx.floor("plaintext-whitelist.setters", n, 2)
+                v = st.value if isinstance(st, (ast.Assign, ast.AnnAssign)) and not isinstance(parent_of(node), (ast.Tuple, ast.List)) else None
+                setters.append((repo.function_of(node), m, st, v))
+    for m, fi, c in _callers(ctx, "setattr"):
+        if len(c.args) == 3 and isinstance(c.args[1], ast.Constant) and c.args[1].value == "plaintext":
+            setters.append((fi, m, c, c.args[2]))
     for m, fi, c in _callers(ctx, "CellPayload"):
         if fi is None:
             continue
+        if any(isinstance(x, ast.Starred) for x in c.args) or any(k.arg is None for k in c.keywords):
+            raise AnalysisError(f"undecided: CellPayload constructed with packed arguments in {fi.qualname}")
         p = arg(c, 2, "plaintext")
-        ctx.check(p is None, "plaintext-whitelist", fi, c, "CellPayload constructed without a plaintext argument",
-                  "a cell is constructed with an explicit plaintext flag")
+        if p is not None:
+            setters.append((fi, m, c, p))
+        else:
+            ctx.check(True, "plaintext-whitelist", fi, c, "CellPayload constructed without a plaintext argument", "")
+    for fi, m, st, v in setters:
+        if fi is not None and fi.qualname == "CellPayload.__init__":
+            ok = v is not None and chain(v) == "plaintext" and is_param(fi, "plaintext") and _bindings(fi, "plaintext") == 1
+        else:
+            ok = fi is not None and v is not None and _allowed_member(ctx, fi, {"TunnelCommunity.send_cell"}) and _whitelist_flag(ctx, fi, v, st)
+        ctx.check(ok, "plaintext-whitelist", fi or m.relpath, st, "plaintext flag set only from msg_id in NO_CRYPTO_PACKETS",
+                  "the plaintext flag of an outgoing cell is set by something other than membership in NO_CRYPTO_PACKETS")
+    ctx.floor("plaintext-whitelist.setters", len(setters), 2)
     # drop rule on the receive side: every path to the delivery establishes `not cell.plaintext` or `type in NO_CRYPTO_PACKETS`
     # (whatever the spelling of the guard: drop-guard with early return, inverted if/else, de Morgan, guard in a helper)
     wl = _MustPass(ctx, good_edge=lambda fi, env, cfg, n, lab: _not_plaintext_edge(ctx, fi, env, n, lab) or _whitelisted_edge(ctx, fi, env, n, lab))
     for clsname, meth, rel, deliver in (("PythonCryptoEndpoint", "process_cell", CR, "self.tunnel_community.on_packet"),
                                         ("TunnelCommunity", "on_cell", TC, "self.on_packet_from_circuit")):
         fi = repo.method(clsname, meth, rel)
-        sites = ctx.anchor(calls(fi, deliver), f"{deliver} in {meth}")
+        sites = ctx.anchor(_sites(ctx, fi, _callee(ctx, deliver), _helper if rel == CR else _new_helper), f"{deliver} in {meth}")
         for s in sites:
-            ctx.check(wl.holds_at(fi, s), "plaintext-whitelist", fi, s,
+            ctx.check(wl.holds_for(s), "plaintext-whitelist", s.fi, s.call,
                       f"{meth}: no path delivers a plaintext cell whose type is not create/created",
                       f"{meth} can deliver a cell that arrived unencrypted although its message type requires encryption")
     rc = repo.method("PythonCryptoEndpoint", "relay_cell", CR)
     npt = _MustPass(ctx, good_edge=lambda fi, env, cfg, n, lab: _not_plaintext_edge(ctx, fi, env, n, lab))
-    for s in ctx.anchor(calls(rc, "self.endpoint.send"), "endpoint.send in relay_cell"):
-        ctx.check(npt.holds_at(rc, s), "plaintext-whitelist", rc, s, "relay_cell forwards only cells without the plaintext flag",
-                  "a relay forwards cells marked plaintext (no layer is added/removed for them)", [str(f) for f in facts_at(ctx.cfg(rc), s)])
+    for s in ctx.anchor(_sites(ctx, rc, _callee(ctx, "self.endpoint.send"), _helper), "endpoint.send in relay_cell"):
+        ctx.check(npt.holds_for(s), "plaintext-whitelist", s.fi, s.call, "relay_cell forwards only cells without the plaintext flag",
+                  "a relay forwards cells marked plaintext (no layer is added/removed for them)", [str(f) for f in s.facts])
 
 
 def _has_cond(cfg, text: str) -> bool:
@@ -804,50 +2011,85 @@ def _path_with(cfg, site_ast, edges) -> bool:
     return any(n in r for n in cfg.nodes_for(site_ast))
 
 
+def _resolved(fi: FuncInfo, e: ast.AST | None):
+    """e, or the value of the local bound once that e names."""
+    if e is None:
+        return None
+    e = strip_cast(e)
+    if isinstance(e, ast.Name) and _bindings(fi, e.id) == 1:
+        return resolve(fi, e)
+    return e
+
+
+def _is_result_of(ctx: Ctx, fi: FuncInfo, env, e: ast.AST | None, callee: str) -> bool:
+    """e is the call `<callee>(cell)` or a local bound once to it."""
+    e = _resolved(fi, e)
+    return isinstance(e, ast.Call) and chain(e.func) == callee and arg(e, 0, "cell") is not None \
+        and norm(_expand(ctx, fi, arg(e, 0, "cell"), env)) == "cell"
+
+
+def _result_ok_edge(ctx: Ctx, fi: FuncInfo, env, n, lab, callee: str) -> bool:
+    """The edge establishes that `<callee>(cell)` returned the cell (truthy / not None; the alternative result is None)."""
+    f = fact_of(n.ast, lab)
+    if (f.op == "truthy" and f.pos) or (f.op == "is" and not f.pos and isinstance(f.right, ast.Constant) and f.right.value is None):
+        return _is_result_of(ctx, fi, env, f.left, callee)
+    return False
+
+
+def _cell_to_bin(ctx: Ctx, fi: FuncInfo, env, e: ast.AST | None, producer: str) -> bool:
+    """e is `<cell>.to_bin(...)` where <cell> is the cell or what `<producer>(cell)` returned (the same object)."""
+    if not (isinstance(e, ast.Call) and isinstance(e.func, ast.Attribute) and e.func.attr == "to_bin"):
+        return False
+    x = e.func.value
+    return norm(_expand(ctx, fi, x, env)) == "cell" or _is_result_of(ctx, fi, env, x, producer)
+
+
 def rule_crypto_before_send(ctx: Ctx) -> None:
     repo = ctx.repo
     sc = repo.method("PythonCryptoEndpoint", "send_cell", CR)
-    cfg = ctx.cfg(sc)
-    for s in ctx.anchor(calls(sc, "self.endpoint.send"), "endpoint.send in send_cell"):
-        facts = facts_at(cfg, s)
-        ok = any(f.op == "truthy" and f.pos and isinstance(f.left, ast.Call) and chain(f.left.func) == "self.outgoing_crypto"
-                 and norm(f.left.args[0]) == "cell" for f in facts)
-        pkt = resolve(sc, arg(s, 1))
-        ok_pkt = isinstance(pkt, ast.Call) and chain(pkt.func) == "cell.to_bin"
+    passed = _MustPass(ctx, good_edge=lambda fi, env, g, n, lab: _result_ok_edge(ctx, fi, env, n, lab, "self.outgoing_crypto"))
+    sends = _sites(ctx, sc, _callee(ctx, "self.endpoint.send"), _helper)
+    for s in ctx.anchor(sends, "endpoint.send in send_cell"):
+        cfg = ctx.cfg(s.fi)
+        pkt = _resolved(s.fi, arg(s.call, 1, "packet"))
+        ok_pkt = _cell_to_bin(ctx, s.fi, s.env, pkt, "self.outgoing_crypto")
+        ctx.check(passed.holds_for(s) and ok_pkt, "crypto-before-send", s.fi, s.call,
+                  "send_cell: endpoint.send dominated by truthy outgoing_crypto(cell), packet = cell.to_bin",
+                  "a cell can leave send_cell without passing outgoing_crypto", [str(f) for f in s.facts])
         # to_bin must be taken after the crypto step
-        ctx.check(ok and ok_pkt, "crypto-before-send", sc, s, "send_cell: endpoint.send dominated by truthy outgoing_crypto(cell), packet = cell.to_bin",
-                  "a cell can leave send_cell without passing outgoing_crypto", [str(f) for f in facts])
-        tb = [n for n in cfg.nodes_for(pkt)] if ok_pkt else []
-        oc = [n for n in cfg.nodes if n.kind == "cond" and isinstance(n.ast, ast.Call) and chain(n.ast.func) == "self.outgoing_crypto"]
-        ctx.check(bool(tb) and bool(oc) and all(cfg.must_complete(t, oc) for t in tb), "crypto-before-send", sc, s,
+        tb = cfg.nodes_for(pkt) if ok_pkt else []
+        oc = [n for c in calls(s.fi, "self.outgoing_crypto") for n in cfg.nodes_for(c)]
+        ctx.check(bool(tb) and (not oc and bool(s.via) or bool(oc) and all(cfg.must_complete(t, oc) for t in tb)), "crypto-before-send", s.fi, s.call,
                   "cell serialised after the crypto step", "the cell is serialised before it is encrypted")
     # outgoing_crypto returns None in the CryptoException handler and cell otherwise
     oc = repo.method("PythonCryptoEndpoint", "outgoing_crypto", CR)
     _returns_none_on_crypto_exception(ctx, oc, "crypto-before-send")
-    # a cell for which no routing entry (hence no keys) exists must not be returned untouched unless it is a plaintext cell
-    cfgo = ctx.cfg(oc)
-    for r in [r for r in walk_no_nested(oc.node) if isinstance(r, ast.Return) and r.value is not None and chain(r.value) == "cell"]:
-        bad = _path_with(cfgo, r, [("circuit", False), ("exit_socket", False), ("relay", False), ("cell.plaintext", False)]) or \
-            (not _has_cond(cfgo, "cell.plaintext") and _path_with(cfgo, r, [("circuit", False), ("exit_socket", False), ("relay", False)]))
-        ctx.check(not bad, "crypto-before-send", oc, r, "outgoing_crypto never returns an unencrypted non-plaintext cell for an unknown circuit",
+    # a cell is returned (= handed to the wire by send_cell) only after an encrypt step completed, or when it carries the plaintext
+    # flag: in particular a cell for which no routing entry (hence no keys) exists is not returned untouched
+    layer = _layer_or_plaintext(ctx)
+    for r in _truthy_returns(oc):
+        ctx.check(layer.holds_at(oc, r), "crypto-before-send", oc, r, "outgoing_crypto never returns an unencrypted non-plaintext cell for an unknown circuit",
                   "outgoing_crypto returns the cell untouched when no circuit/exit/relay entry exists: send_cell then puts the payload on the wire in clear")
     rc = repo.method("PythonCryptoEndpoint", "relay_cell", CR)
     cfg = ctx.cfg(rc)
     # every path to endpoint.send completes an encrypt/decrypt step (directly or inside a helper whose result guards the send);
     # the infeasible neither-FORWARD-nor-BACKWARD path of the direction dispatch is cut (domain checked in rule_duality)
     step = _MustPass(ctx, good_node=lambda fi, env, g, n: _is_crypto_node(ctx, fi, env, g, n),
-                     infeasible=lambda fi, env, g, n, lab: _third_direction_edge(ctx, fi, env, g, n, lab))
-    for s in calls(rc, "self.endpoint.send"):
-        ctx.check(step.holds_at(rc, s), "crypto-before-send", rc, s, "relay_cell: every path to endpoint.send completes an encrypt/decrypt step",
+                     infeasible=lambda fi, env, g, n, lab: _third_direction_edge(ctx, fi, env, g, n, lab)
+                     or _missing_dispatch_edge(ctx, fi, env, n, lab), plans=True)
+    sends = _sites(ctx, rc, _callee(ctx, "self.endpoint.send"), _helper)
+    for s in sends:
+        ctx.check(step.holds_for(s), "crypto-before-send", s.fi, s.call, "relay_cell: every path to endpoint.send completes an encrypt/decrypt step",
                   "a relay can forward a cell without adding or removing its layer")
     # a cell whose crypto step failed is dropped: no path from the failure of a step (exception caught or reported by the helper's
     # result) leads to endpoint.send
     starts = _failure_starts(ctx, rc, None, 2)
     ctx.anchor(starts, "exceptional exit of a crypto step in relay_cell")
     after_failure = _flag_reach(ctx, rc, starts)
-    for s in calls(rc, "self.endpoint.send"):
-        ok = not any(n in after_failure for n in cfg.nodes_for(s))
-        ctx.check(ok, "drop-on-failure", rc, s, "relay_cell drops the cell on CryptoException", "relay_cell forwards a cell whose crypto step failed")
+    for s in sends:
+        top = s.via[0][1] if s.via else s.call              # the statement of relay_cell that (leads to the helper that) sends
+        ok = not any(n in after_failure for n in cfg.nodes_for(top))
+        ctx.check(ok, "drop-on-failure", s.fi, s.call, "relay_cell drops the cell on CryptoException", "relay_cell forwards a cell whose crypto step failed")
 
 
 def _third_direction_edge(ctx: Ctx, fi: FuncInfo, env, cfg, n, lab) -> bool:
@@ -877,7 +2119,7 @@ def _failure_starts(ctx: Ctx, fi: FuncInfo, env, depth: int) -> list:
                 starts.extend((v, st) for st in base.get(n, ()))
 
     for c in calls(fi):
-        if chain(c.func) in CRYPTO_OPS:
+        if _is_crypto_call(ctx, fi, c):
             for n in cfg.nodes_for(c):
                 leave(n, lambda lab: lab == "exc")
             continue
@@ -887,7 +2129,7 @@ def _failure_starts(ctx: Ctx, fi: FuncInfo, env, depth: int) -> list:
         try:
             outcomes = _failure_outcomes(ctx, t, _bind(ctx, fi, c, t, env), depth - 1)
         except AnalysisError:
-            if calls(t, CRYPTO_OPS):
+            if any(_is_crypto_call(ctx, t, x) for x in calls(t)):
                 raise
             continue
         tested = [m for m in cfg.nodes if m.kind == "cond" and _cond_call(ctx, fi, m) is c]
@@ -921,17 +2163,39 @@ def _failure_outcomes(ctx: Ctx, fi: FuncInfo, env, depth: int) -> set:
     return out
 
 
+def _catches_crypto_exception(node: ast.AST, within: ast.AST) -> bool:
+    """node sits in the body of a try (inside function `within`) that has a handler for CryptoException (or for everything)."""
+    from ..cfg import _catches_all
+    prev = node
+    for a in ancestors(node):
+        if isinstance(a, ast.Try) and any(prev is b for b in a.body) and \
+                any(_catches_all(h) or "CryptoException" in [chain(t) for t in (h.type.elts if isinstance(h.type, ast.Tuple) else [h.type])]
+                    for h in a.handlers):
+            return True
+        if a is within:
+            break
+        prev = a
+    return False
+
+
 def _returns_none_on_crypto_exception(ctx: Ctx, fi: FuncInfo, rule: str) -> None:
-    trs = [t for t in walk_no_nested(fi.node) if isinstance(t, ast.Try)]
-    ctx.anchor(trs, f"try in {fi.name}")
-    for tr in trs:
-        hs = [h for h in tr.handlers if chain(h.type) == "CryptoException"]
-        ok = bool(hs)
-        for h in hs:
-            rets = [s for s in ast.walk(h) if isinstance(s, ast.Return)]
-            ok = ok and bool(rets) and all(r.value is None or (isinstance(r.value, ast.Constant) and r.value.value is None) for r in rets)
-            ok = ok and cfg_handler_never_falls_through(ctx, fi, h)
-        ctx.check(ok, rule, fi, tr, f"{fi.name} returns None when a layer fails", f"{fi.name} returns the cell although a crypto layer failed")
+    """A failed layer (CryptoException raised by a step) is contained by fi and makes it return None: every step runs under a
+    handler for CryptoException (in fi or in the helper that performs the step), and from the failure of a step no `return` of a
+    possibly truthy value can be reached - whatever the handler looks like (return in the handler, flag tested later, try/else)."""
+    sites = ctx.anchor(_crypto_sites(ctx, fi), f"crypto steps in {fi.name}")
+    done = set()
+    for s in sites:
+        if id(s.call) in done:
+            continue
+        done.add(id(s.call))
+        levels = [(s.fi, s.call), *[(g, c) for g, c in reversed(s.via)]]
+        ctx.check(any(_catches_crypto_exception(c, g.node) for g, c in levels), rule, s.fi, s.call, f"{fi.name}: a failing layer is caught",
+                  f"{fi.name} lets the CryptoException of a failed layer escape to its caller, which does not catch it")
+    cfg = ctx.cfg(fi)
+    after = _flag_reach(ctx, fi, _failure_starts(ctx, fi, None, 2))
+    for r in ctx.anchor(_truthy_returns(fi), f"return of the cell in {fi.name}"):
+        ctx.check(not any(n in after for n in cfg.nodes_for(r)), rule, fi, r, f"{fi.name} returns None when a layer fails",
+                  f"{fi.name} returns the cell although a crypto layer failed")
 
 
 def cfg_handler_never_falls_through(ctx: Ctx, fi: FuncInfo, h: ast.ExceptHandler) -> bool:
@@ -948,51 +2212,107 @@ def cfg_handler_never_falls_through(ctx: Ctx, fi: FuncInfo, h: ast.ExceptHandler
 def rule_drop_on_failure(ctx: Ctx) -> None:
     repo = ctx.repo
     pc = repo.method("PythonCryptoEndpoint", "process_cell", CR)
-    cfg = ctx.cfg(pc)
-    for s in ctx.anchor(calls(pc, "self.tunnel_community.on_packet"), "delivery in process_cell"):
-        facts = facts_at(cfg, s)
-        ok = any(f.op == "truthy" and f.pos and isinstance(f.left, ast.Call) and chain(f.left.func) == "self.incoming_crypto"
-                 and norm(f.left.args[0]) == "cell" for f in facts)
-        ctx.check(ok, "drop-on-failure", pc, s, "delivery dominated by truthy incoming_crypto(cell)",
-                  "a cell is delivered although incoming_crypto rejected it (or was not consulted)", [str(f) for f in facts])
+    accepted = _MustPass(ctx, good_edge=lambda fi, env, g, n, lab: _result_ok_edge(ctx, fi, env, n, lab, "self.incoming_crypto"))
+    deliveries = _sites(ctx, pc, _callee(ctx, "self.tunnel_community.on_packet"), _helper)
+    for s in ctx.anchor(deliveries, "delivery in process_cell"):
+        ctx.check(accepted.holds_for(s), "drop-on-failure", s.fi, s.call, "delivery dominated by truthy incoming_crypto(cell)",
+                  "a cell is delivered although incoming_crypto rejected it (or was not consulted)", [str(f) for f in s.facts])
         # the delivered bytes are the decrypted cell
-        pk = arg(s, 0)
-        ok2 = isinstance(pk, ast.Tuple) and isinstance(pk.elts[1], ast.Call) and chain(pk.elts[1].func) == "cell.to_bin"
-        ctx.check(ok2, "drop-on-failure", pc, s, "delivered packet is the decrypted cell re-serialised", "delivered bytes are not the decrypted cell")
+        pk = _resolved(s.fi, arg(s.call, 0, "packet"))
+        ok2 = isinstance(pk, ast.Tuple) and len(pk.elts) == 2 and _cell_to_bin(ctx, s.fi, s.env, _resolved(s.fi, pk.elts[1]), "self.incoming_crypto")
+        ctx.check(ok2, "drop-on-failure", s.fi, s.call, "delivered packet is the decrypted cell re-serialised", "delivered bytes are not the decrypted cell")
     ic = repo.method("PythonCryptoEndpoint", "incoming_crypto", CR)
     _returns_none_on_crypto_exception(ctx, ic, "drop-on-failure")
-    cfg = ctx.cfg(ic)
-    # encrypted cells of unknown circuits are dropped: `return cell` is not reachable with circuit/exit_socket both falsy and not plaintext
-    for r in [r for r in walk_no_nested(ic.node) if isinstance(r, ast.Return) and r.value is not None and chain(r.value) == "cell"]:
-        bad = _path_with(cfg, r, [("circuit", False), ("exit_socket", False), ("cell.plaintext", False)])
-        ctx.check(not bad and _has_cond(cfg, "cell.plaintext"), "drop-on-failure", ic, r, "encrypted cell for an unknown circuit is never returned",
+    # encrypted cells of unknown circuits are dropped: the cell is returned (= accepted) only after a decrypt step completed or when
+    # it carries the plaintext flag (such cells skip decryption by design and are then limited by the whitelist rule)
+    layer = _layer_or_plaintext(ctx)
+    for r in _truthy_returns(ic):
+        ctx.check(layer.holds_at(ic, r), "drop-on-failure", ic, r, "encrypted cell for an unknown circuit is never returned",
                   "incoming_crypto accepts an encrypted cell for which no keys are known")
-        # all decrypt calls precede the return on their paths: return cell only after try completes normally
-    # plaintext cells skip decryption by design (decrypt_cell returns early); they are then limited by the whitelist rule
+
+
+def _truthy_returns(fi: FuncInfo) -> list:
+    """`return` statements of outgoing_crypto / incoming_crypto whose value can be truthy; such a value is the cell itself."""
+    out = [r for r in walk_no_nested(fi.node) if isinstance(r, ast.Return) and r.value is not None and True in _const_truth(strip_cast(r.value))]
+
+    def cell_or_nothing(v) -> bool:
+        v = strip_cast(v)
+        if isinstance(v, ast.Constant):
+            return not v.value
+        if isinstance(v, ast.IfExp):
+            return cell_or_nothing(v.body) and cell_or_nothing(v.orelse)
+        if isinstance(v, ast.BoolOp) and isinstance(v.op, ast.And):
+            return cell_or_nothing(v.values[-1])
+        return isinstance(v, ast.Name) and v.id == "cell" and _bindings(fi, "cell") == 1
+    for r in out:
+        if not cell_or_nothing(r.value):
+            raise AnalysisError(f"undecided: {fi.qualname} returns `{norm(r.value)}`, not the cell it was given")
+    return out
+
+
+def _layer_or_plaintext(ctx: Ctx) -> _MustPass:
+    """'Every path completes an encrypt/decrypt step on the cell or establishes cell.plaintext.'"""
+    return _MustPass(ctx, good_node=lambda fi, env, g, n: _is_crypto_node(ctx, fi, env, g, n),
+                     good_edge=lambda fi, env, g, n, lab: _plaintext_edge(ctx, fi, env, n, lab), plans=True)
+
+
+E2E_TYPES = {"CIRCUIT_TYPE_RP_DOWNLOADER", "CIRCUIT_TYPE_RP_SEEDER"}
+
+
+def _circuit_types(ctx: Ctx) -> dict:
+    """name -> value of the CIRCUIT_TYPE_* constants (pairwise different, checked)."""
+    t = ctx.repo.module("ipv8/messaging/anonymization/tunnel.py")
+    out = {k: ctx.repo.resolve_const(t, v) for k, v in t.constants.items() if k.startswith("CIRCUIT_TYPE_")}
+    if not E2E_TYPES <= set(out) or len(set(map(repr, out.values()))) != len(out):
+        raise AnalysisError("anchor lost: CIRCUIT_TYPE_* constants of tunnel.py (distinct values expected)")
+    return out
+
+
+def _not_e2e(ctx: Ctx, facts) -> bool:
+    """The facts establish that circuit.ctype is neither RP_DOWNLOADER nor RP_SEEDER (exclusion of both, or membership in /
+    equality with other circuit types)."""
+    types = _circuit_types(ctx)
+    excluded = set()
+    for f in facts:
+        if norm(f.left) != "circuit.ctype" or f.right is None:
+            continue
+        if f.op == "in":
+            elts = _literal_elts(None, f.right)
+            names = {norm(x) for x in elts} if elts is not None else None
+            if names is None or not names <= set(types):
+                continue
+            if not f.pos:
+                excluded |= names
+            elif not names & E2E_TYPES:
+                return True
+        elif f.op == "eq":
+            r = norm(f.right)
+            if r in types and f.pos and r not in E2E_TYPES:
+                return True
+            if r in types and not f.pos:
+                excluded.add(r)
+    return E2E_TYPES <= excluded
 
 
 def rule_e2e_delivery(ctx: Ctx) -> None:
     """Data of an end-to-end (rendezvous) circuit is opaque payload for BOTH parties: it is never interpreted as IPv8 control traffic."""
     od = ctx.repo.method("TunnelCommunity", "on_data", TC)
-    cfg = ctx.cfg(od)
-    sites = [c for c in calls(od) if chain(c.func) in ("self.on_packet_from_circuit", "self.endpoint.notify_listeners")]
+    control = ("self.on_packet_from_circuit", "self.endpoint.notify_listeners")
+    sites = _sites(ctx, od, _callee(ctx, *control), _new_helper)
     ctx.anchor(sites, "control delivery in on_data")
-    want = {"CIRCUIT_TYPE_RP_DOWNLOADER", "CIRCUIT_TYPE_RP_SEEDER"}
     for s in sites:
-        ok = False
-        seen = None
-        for f in facts_at(cfg, s):
-            if f.op == "truthy" and not f.pos:
-                e = resolve(od, f.left)
-                seen = norm(e)
-                if isinstance(e, ast.Compare) and len(e.ops) == 1 and isinstance(e.ops[0], ast.In) and norm(e.left) == "circuit.ctype" \
-                        and isinstance(e.comparators[0], (ast.List, ast.Tuple, ast.Set)) and {norm(x) for x in e.comparators[0].elts} == want:
-                    ok = True
-        ctx.check(ok, "plaintext-whitelist", od, s, "IPv8-shaped data is interpreted as control traffic only on circuits that are neither RP_DOWNLOADER nor RP_SEEDER",
+        seen = next((norm(f.left) for f in s.facts if f.op == "truthy" and not f.pos and not isinstance(f.left, ast.Call)), None)
+        ctx.check(_not_e2e(ctx, s.facts), "plaintext-whitelist", s.fi, s.call,
+                  "IPv8-shaped data is interpreted as control traffic only on circuits that are neither RP_DOWNLOADER nor RP_SEEDER",
                   f"on_data decides 'end-to-end payload' by `{seen}` instead of circuit.ctype in [RP_DOWNLOADER, RP_SEEDER]: on one side of an e2e circuit, payload that "
                   "merely looks like IPv8 is dropped, misrouted or executed as a tunnel control message instead of being delivered byte-for-byte")
-    raw = [c for c in calls(od, "self.on_raw_data")]
-    ctx.check(len(raw) == 1 and [norm(a) for a in raw[0].args] == ["circuit", "origin", "data"], "plaintext-whitelist", od, od.node,
+    raw = _sites(ctx, od, _callee(ctx, "self.on_raw_data"), _new_helper)
+    ok = len(raw) == 1 and not raw[0].call.keywords
+    if ok:
+        top = raw[0].via[0][1] if raw[0].via else raw[0].call          # the statement of on_data that leads to the hand-over
+        want = [norm(_expand(ctx, od, ast.Name(id=x, ctx=ast.Load()), at=top)) for x in ("circuit", "origin", "data")]
+        ok = [norm(_expand(ctx, raw[0].fi, a, raw[0].env, at=raw[0].call)) for a in raw[0].call.args] == want
+    ctx.check(ok, "plaintext-whitelist", od, od.node,
               "other circuit data is handed to on_raw_data(circuit, origin, data) unchanged", "raw circuit data is not delivered unchanged")
 
 
@@ -1011,6 +2331,19 @@ def _absent_from_circuits_edge(ctx: Ctx, fi: FuncInfo, env, n, lab, key: str) ->
     return False
 
 
+def _install_guarded(ctx: Ctx, caller: FuncInfo, call: ast.Call, helper: FuncInfo, slot: ast.AST) -> bool:
+    """The call of `helper` (which stores an exit socket under `slot`) is dominated in `caller` by `<slot> not in self.circuits`."""
+    try:
+        env = _bind(ctx, caller, call, helper, None)
+    except AnalysisError:
+        return False
+    key_expr = _expand(ctx, helper, slot, env)
+    key = norm(key_expr)
+    guard = _MustPass(ctx, subject=names_in(key_expr),
+                      good_edge=lambda f, e, cfg, cn, lab: _absent_from_circuits_edge(ctx, f, e, cn, lab, key))
+    return guard.holds_at(caller, call)
+
+
 def rule_key_selection(ctx: Ctx) -> None:
     """
     incoming_crypto / outgoing_crypto pick the key set of a cell by looking its circuit id up in the routing tables, exit sockets
@@ -1026,22 +2359,38 @@ def rule_key_selection(ctx: Ctx) -> None:
         if not m.relpath.startswith("ipv8/messaging/anonymization/"):
             continue
         for node in ast.walk(m.tree):
-            if not (isinstance(node, ast.Subscript) and isinstance(node.ctx, ast.Store) and (chain(node.value) or "").endswith("exit_sockets")):
-                continue
-            fi = repo.function_of(node)
+            # an entry is stored: `t[k] = v`, `t.setdefault(k, v)`, `t.__setitem__(k, v)`, `t.update({k: v, ...})`
+            keys = []
+            if isinstance(node, ast.Subscript) and isinstance(node.ctx, ast.Store) and (chain(node.value) or "").endswith("exit_sockets"):
+                keys = [node.slice]
+            elif isinstance(node, ast.Call) and isinstance(node.func, ast.Attribute) and (chain(node.func.value) or "").endswith("exit_sockets"):
+                if node.func.attr in ("setdefault", "__setitem__") and node.args:
+                    keys = [node.args[0]]
+                elif node.func.attr == "update":
+                    d = node.args[0] if len(node.args) == 1 and not node.keywords else None
+                    if not (isinstance(d, ast.Dict) and all(k is not None for k in d.keys)):
+                        raise AnalysisError(f"undecided: entries stored by `{norm(node)[:80]}`")
+                    keys = list(d.keys)
+            fi = repo.function_of(node) if keys else None
             if fi is None:
                 continue
-            n += 1
-            key = norm(_expand(ctx, fi, node.slice, at=node))
-            subj = names_in(_expand(ctx, fi, node.slice, at=node)) | names_in(node.slice)
-            guard = _MustPass(ctx, subject=subj,
-                              good_edge=lambda f, env, cfg, cn, lab, key=key: _absent_from_circuits_edge(ctx, f, env, cn, lab, key))
-            st = enclosing_stmt(node)
-            ctx.check(guard.holds_at(fi, st), "key-selection", fi, st,
-                      f"{fi.qualname}: exit socket installed only under an id that is not the id of an own circuit",
-                      f"{fi.qualname} installs an exit socket for circuit id `{norm(node.slice)}` without having established that the id is not in "
-                      "self.circuits: incoming_crypto prefers the exit-socket entry, so cells authenticated only with the new exit keys are "
-                      "accepted and delivered as data of the own circuit with that id (injection without the circuit's session keys)")
+            for slot in keys:
+                n += 1
+                key = norm(_expand(ctx, fi, slot, at=node))
+                subj = names_in(_expand(ctx, fi, slot, at=node)) | names_in(slot)
+                guard = _MustPass(ctx, subject=subj,
+                                  good_edge=lambda f, env, cfg, cn, lab, key=key: _absent_from_circuits_edge(ctx, f, env, cn, lab, key))
+                st = enclosing_stmt(node)
+                ok = guard.holds_at(fi, st)
+                if not ok and _is_new(fi):
+                    # the store lives in a helper of a later change: the id is established to be free before the helper is entered
+                    sites = [(c_fi, c) for _, c_fi, c in _callers(ctx, fi.name)]
+                    ok = bool(sites) and all(c_fi is not None and _install_guarded(ctx, c_fi, c, fi, slot) for c_fi, c in sites)
+                ctx.check(ok, "key-selection", fi, st,
+                          f"{fi.qualname}: exit socket installed only under an id that is not the id of an own circuit",
+                          f"{fi.qualname} installs an exit socket for circuit id `{norm(slot)}` without having established that the id is not in "
+                          "self.circuits: incoming_crypto prefers the exit-socket entry, so cells authenticated only with the new exit keys are "
+                          "accepted and delivered as data of the own circuit with that id (injection without the circuit's session keys)")
     ctx.floor("key-selection", n, 1)
 
 
@@ -1053,7 +2402,7 @@ def rule_emitters(ctx: Ctx) -> None:
         if fi is None or not fi.module.relpath.startswith("ipv8/messaging/anonymization/"):
             continue
         n += 1
-        ctx.check(fi.qualname in allowed_tb, "cell-emitters", fi, c, f"to_bin called in {fi.qualname}",
+        ctx.check(_allowed_member(ctx, fi, allowed_tb), "cell-emitters", fi, c, f"to_bin called in {fi.qualname}",
                   "a wire cell is serialised outside send_cell/relay_cell/process_cell (crypto step bypassed)")
     ctx.floor("cell-emitters", n, 3)
     for m, fi, c in _callers(ctx, "send_cell"):
@@ -1061,19 +2410,345 @@ def rule_emitters(ctx: Ctx) -> None:
             continue
         ch = chain(c.func) or ""
         if ch.endswith("crypto_endpoint.send_cell"):
-            ctx.check(fi.qualname == "TunnelCommunity.send_cell", "cell-emitters", fi, c, "crypto_endpoint.send_cell only from TunnelCommunity.send_cell",
+            ctx.check(_allowed_member(ctx, fi, {"TunnelCommunity.send_cell"}), "cell-emitters", fi, c, "crypto_endpoint.send_cell only from TunnelCommunity.send_cell",
                       "the crypto endpoint is asked to send a cell whose plaintext flag was not derived by TunnelCommunity.send_cell")
     # TunnelCommunity.send_cell strips the circuit id ([4:]) and prepends the msg id
     sc = repo.method("TunnelCommunity", "send_cell", TC)
-    cells = [c for c in calls(sc, "CellPayload")]
-    ok = len(cells) == 1 and norm(arg(cells[0], 0)) == "payload.circuit_id"
+    cells = _sites(ctx, sc, _callee(ctx, "CellPayload"), _new_helper)
+    ok = len(cells) == 1 and arg(cells[0].call, 0, "circuit_id") is not None and \
+        norm(_expand(ctx, cells[0].fi, arg(cells[0].call, 0, "circuit_id"), cells[0].env, at=cells[0].call)) == "payload.circuit_id"
     ctx.check(ok, "cell-emitters", sc, sc.node, "cell header carries the payload's circuit id", "cell header circuit id differs from the payload's")
     # endpoint.send inside the crypto endpoint only in send_cell / relay_cell
     ce = repo.cls("PythonCryptoEndpoint", CR)
     for fi in ce.methods.values():
         for c in calls(fi, "self.endpoint.send"):
-            ctx.check(fi.name in ("send_cell", "relay_cell"), "cell-emitters", fi, c, f"raw send in {fi.name}",
+            ctx.check(_allowed_member(ctx, fi, {"PythonCryptoEndpoint.send_cell", "PythonCryptoEndpoint.relay_cell"}), "cell-emitters", fi, c, f"raw send in {fi.name}",
                       "the crypto endpoint sends bytes outside send_cell/relay_cell")
+
+
+EP = "ipv8/messaging/anonymization/endpoint.py"
+
+
+def _still_param(ctx: Ctx, fi: FuncInfo, e: ast.AST | None, at: ast.AST) -> str | None:
+    """Name of the parameter of fi whose value expression e has when `at` runs: e is the bare parameter and no re-binding of the
+    name reaches `at` on any path."""
+    e = strip_cast(e) if e is not None else None
+    if not isinstance(e, ast.Name) or not is_param(fi, e.id):
+        return None
+    if _reaching_defs(ctx, fi, e.id, ctx.cfg(fi).nodes_for(at)):
+        return None
+    return e.id
+
+
+def _hands_over(ctx: Ctx, root: FuncInfo, s: _Site, pairs) -> bool:
+    """Site s (in root or in a helper root calls directly) passes root's own parameters: pairs = [(argument, parameter of root)]."""
+    if len(s.via) > 1:
+        return False
+    for a, want in pairs:
+        if a is None:
+            return False
+        if not s.via:
+            if _still_param(ctx, root, a, s.call) != want:
+                return False
+        else:
+            p = _still_param(ctx, s.fi, a, s.call)
+            bound = (s.env or {}).get(p) if p else None
+            if not (isinstance(bound, ast.Name) and bound.id == want and is_param(root, want)
+                    and not _reaching_defs(ctx, root, want, ctx.cfg(root).nodes_for(s.via[0][1]))):
+                return False
+    return True
+
+
+class _HandOver:
+    """
+    Follows the VALUES of the two parameters (address, packet) of TunnelEndpoint.send along every path - through copies, tuples,
+    `*tuple` arguments, local closures and new helper methods - and records per path whether the pair itself was handed over
+    (send_data(..., address, ..., packet), queued as (address, packet), or sent directly) and whether some other value was tunnelled.
+    Values: ('param', name) | ('tuple', (values...)) | None (anything else).  The state space is finite, loops are walked to a fixpoint.
+    """
+
+    def __init__(self, ctx: Ctx, root: FuncInfo) -> None:
+        self.ctx, self.root = ctx, root
+        self.addr, self.pkt = ("param", root.params()[1]), ("param", root.params()[2])
+        self.handed_sites: list = []
+        self.calls_by_id: dict = {}
+        self._memo: dict = {}
+
+    def run(self) -> set:
+        env = {p: ("param", p) for p in self.root.params()}
+        return self.walk(self.root.node, self.root, env, 3)
+
+    def aeval(self, e, env):
+        e = strip_cast(e)
+        if isinstance(e, ast.Name):
+            return env.get(e.id)
+        if isinstance(e, (ast.Tuple, ast.List)) and not any(isinstance(x, ast.Starred) for x in e.elts):
+            return ("tuple", tuple(self.aeval(x, env) for x in e.elts))
+        return None
+
+    def args(self, call: ast.Call, env) -> list | None:
+        out = []
+        for a in call.args:
+            if isinstance(a, ast.Starred):
+                v = self.aeval(a.value, env)
+                if not (isinstance(v, tuple) and v[0] == "tuple"):
+                    return None
+                out += list(v[1])
+            else:
+                out.append(self.aeval(a, env))
+        return out
+
+    def bind(self, fn, call: ast.Call, env, skip_self: bool):
+        a = fn.args
+        if a.vararg or a.kwarg or any(k.arg is None for k in call.keywords):
+            return None
+        vals = self.args(call, env)
+        names = [x.arg for x in a.posonlyargs + a.args][1 if skip_self else 0:]
+        if vals is None:                    # `*something` that is not a known tuple: nothing is known about any parameter
+            return dict.fromkeys(names)
+        if len(vals) > len(names):
+            return None
+        out = dict(zip(names, vals))
+        for k in call.keywords:
+            out[k.arg] = self.aeval(k.value, env)
+        return out
+
+    def event(self, call: ast.Call, fi: FuncInfo | None, env, closures, depth):
+        """-> list of (handed, sent) effects of one call, or None when the call is none of our business."""
+        ch = chain(call.func) or ""
+        vals = self.args(call, env)
+        kw = {k.arg: self.aeval(k.value, env) for k in call.keywords if k.arg}
+        if ch.endswith(".send_data") or ch == "send_data":
+            dest = kw.get("dest_address", vals[2] if vals is not None and len(vals) > 2 else None)
+            data = kw.get("data", vals[4] if vals is not None and len(vals) > 4 else None)
+            self.calls_by_id[id(call)] = call
+            if dest == self.addr and data == self.pkt:
+                if call not in self.handed_sites:
+                    self.handed_sites.append(call)
+                return [(True, 0)]
+            return [(False, id(call))]
+        if ch.endswith("send_queue.append") or ch.endswith("send_queue.appendleft"):
+            return [(vals is not None and len(vals) == 1 and vals[0] == ("tuple", (self.addr, self.pkt)), 0)]
+        if ch.endswith("endpoint.send") and vals is not None and vals[:2] == [self.addr, self.pkt]:
+            return [(True, 0)]
+        if isinstance(call.func, ast.Name) and call.func.id in closures and depth > 0:
+            fn = closures[call.func.id]
+            inner = self.bind(fn, call, env, skip_self=False)
+            if inner is None:
+                raise AnalysisError(f"undecided: arguments of the local function {fn.name} in {self.root.qualname}")
+            return sorted(self.walk(fn, fi, {**env, **inner}, depth - 1, closures))
+        if fi is not None and depth > 0:
+            t = _new_helper(self.ctx, fi, call)
+            if t is not None:
+                inner = self.bind(t.node, call, env, skip_self=True)
+                if inner is None:
+                    raise AnalysisError(f"undecided: arguments of helper {t.qualname}")
+                return sorted(self.walk(t.node, t, {"self": None, **inner}, depth - 1))
+        return None
+
+    def walk(self, fn, fi: FuncInfo | None, env0: dict, depth: int, outer_closures=None) -> set:
+        """{(handed, sent)} over the normal exits of function fn started with the abstract environment env0."""
+        from ..cfg import CFG
+        key = (id(fn), tuple(sorted((k, v) for k, v in env0.items() if v is not None)))
+        if key in self._memo:
+            return self._memo[key]
+        self._memo[key] = set()
+        cfg = self.ctx.cfg(fi) if fi is not None and fi.node is fn else CFG(fn)
+        closures = dict(outer_closures or {})
+        freeze = lambda env: tuple(sorted((k, v) for k, v in env.items() if v is not None))  # noqa: E731
+        start = (cfg.entry, freeze(env0), False, 0)
+        todo, seen, out = [start], set(), set()
+
+        def targets(t, v, env) -> None:
+            if isinstance(t, ast.Name):
+                env[t.id] = v
+            elif isinstance(t, (ast.Tuple, ast.List)):
+                vs = list(v[1]) if isinstance(v, tuple) and v[0] == "tuple" and len(v[1]) == len(t.elts) else [None] * len(t.elts)
+                for x, y in zip(t.elts, vs):
+                    targets(x.value if isinstance(x, ast.Starred) else x, None if isinstance(x, ast.Starred) else y, env)
+
+        while todo:
+            st = todo.pop()
+            if st in seen:
+                continue
+            seen.add(st)
+            if len(seen) > 20000:
+                raise AnalysisError(f"undecided: too many states while following the packet through {self.root.qualname}")
+            node, fenv, handed, sent = st
+            if node is cfg.exit:
+                out.add((handed, sent))
+                continue
+            env = dict(fenv)
+            effects = [(handed, sent)]
+            a = node.ast
+            if node.kind in ("stmt", "cond") and a is not None:
+                if isinstance(a, (ast.FunctionDef, ast.AsyncFunctionDef)):
+                    closures[a.name] = a
+                elif not isinstance(a, (ast.ClassDef,)):
+                    for c in sorted((x for x in walk_no_nested(a) if isinstance(x, ast.Call)), key=lambda x: (x.end_lineno, x.end_col_offset)):
+                        ev = self.event(c, fi, env, closures, depth)
+                        if ev is not None:
+                            effects = [(h or h2, s or s2) for h, s in effects for h2, s2 in ev]
+                if isinstance(a, ast.Assign):
+                    v = self.aeval(a.value, env)
+                    for t in a.targets:
+                        targets(t, v, env)
+                elif isinstance(a, ast.AnnAssign) and a.value is not None:
+                    targets(a.target, self.aeval(a.value, env), env)
+                elif isinstance(a, (ast.AugAssign, ast.With, ast.AsyncWith, ast.Import, ast.ImportFrom, ast.Delete)):
+                    for x in ast.walk(a):
+                        if isinstance(x, ast.Name) and isinstance(x.ctx, (ast.Store, ast.Del)):
+                            env[x.id] = None
+                for x in walk_no_nested(a):
+                    if isinstance(x, ast.NamedExpr):
+                        env[x.target.id] = self.aeval(x.value, env)
+            for v, lab in node.succ:
+                env2 = env
+                if node.kind == "loop" and lab is True and isinstance(a, (ast.For, ast.AsyncFor)):
+                    env2 = dict(env)
+                    for x in ast.walk(a.target):
+                        if isinstance(x, ast.Name):
+                            env2[x.id] = None
+                if node.kind == "handler" and isinstance(a, ast.ExceptHandler) and a.name:
+                    env2 = {**env, a.name: None}
+                for h, s_ in (effects if lab != "exc" else [(handed, sent)]):
+                    todo.append((v, freeze(env2 if lab != "exc" else dict(fenv)), h, s_))
+        self._memo[key] = out
+        return out
+
+
+def rule_payload_conservation(ctx: Ctx) -> None:
+    """
+    What the application hands to the anonymising endpoint is what enters the circuit.  TunnelEndpoint.send(address, packet) either
+    sends the packet directly (community not anonymised), queues (address, packet) until a circuit is ready, or passes exactly its own
+    `address` and `packet` to TunnelCommunity.send_data; flushing older queued packets on the way must not replace them (a loop that
+    re-binds the two names before the hand-over sends an old packet twice and the new one never).  send_data wraps its `data`
+    parameter unchanged into the DataPayload it sends.
+    """
+    repo = ctx.repo
+    te = repo.method("TunnelEndpoint", "send", EP)
+    if len(te.params()) != 3:
+        raise AnalysisError("anchor-lost: TunnelEndpoint.send(self, address, packet)")
+    walk = _HandOver(ctx, te)
+    outcomes = walk.run()
+    ctx.anchor(list(walk.calls_by_id), "send_data reached from TunnelEndpoint.send")
+    for c in walk.handed_sites:
+        ctx.check(True, "payload-conservation", te, c, "TunnelEndpoint.send passes its own (address, packet) to send_data", "")
+    bad = sorted({sent for handed, sent in outcomes if sent and not handed})
+    for c in [walk.calls_by_id[i] for i in bad]:
+        ctx.check(False, "payload-conservation", te, c, "other packets are tunnelled only on paths that also hand over the caller's own packet",
+                  "TunnelEndpoint.send tunnels a packet other than the one it was given on a path that never passes its own (address, packet) "
+                  "to send_data (the names are re-bound before the hand-over): the data entering the ready circuit is not the data the "
+                  "application sent - an older packet leaves the exit twice and the new one never")
+    if not bad:
+        ctx.check(True, "payload-conservation", te, te.node, "other packets are tunnelled only on paths that also hand over the caller's own packet", "")
+    sd = repo.method("TunnelCommunity", "send_data", TC)
+    data_p = sd.params()[-1]
+    dps = _sites(ctx, sd, _callee(ctx, "DataPayload"), _new_helper)
+    ok = len(dps) == 1 and _hands_over(ctx, sd, dps[0], [(arg(dps[0].call, 3, "data"), data_p)])
+    if ok:
+        sent = [c for c in calls(dps[0].fi, "self.send_cell") if arg(c, 1, "payload") is not None and
+                (_resolved(dps[0].fi, arg(c, 1, "payload")) is dps[0].call or arg(c, 1, "payload") is dps[0].call)]
+        ok = bool(sent)
+    ctx.check(ok, "payload-conservation", sd, sd.node, "send_data wraps its data parameter into the DataPayload it sends",
+              "TunnelCommunity.send_data does not send a DataPayload that carries its `data` parameter unchanged")
+
+
+def rule_own_circuit_sender(ctx: Ctx) -> None:
+    """
+    Data is treated as coming out of one of OUR circuits (delivered to the application / interpreted as control traffic, attributed
+    to the origin it names) only when the sender's full socket address equals the address of the circuit's first hop.  on_data is also
+    reached by plain data messages (re-dispatched by on_packet_from_circuit, or sent to our socket by anybody who knows the prefix),
+    which carry no authentication of their own: a weaker test (IP only) lets a party without session keys have foreign data delivered.
+    """
+    od = ctx.repo.method("TunnelCommunity", "on_data", TC)
+    if "sock_addr" not in od.params():
+        raise AnalysisError("anchor-lost: parameter sock_addr of TunnelCommunity.on_data")
+    sinks = ("self.on_raw_data", "self.on_packet_from_circuit", "self.endpoint.notify_listeners")
+    sites = ctx.anchor(_sites(ctx, od, _callee(ctx, *sinks), _new_helper), "own-circuit delivery in on_data")
+    for s in sites:
+        ok = any(f.op == "eq" and f.pos and {norm(f.left), norm(f.right)} == {"sock_addr", "circuit.hop.address"} for f in s.facts)
+        ctx.check(ok, "origin-authentic", s.fi, s.call, "own-circuit data accepted only from the first hop's socket address",
+                  "on_data hands data to the application as traffic of our own circuit without having established "
+                  "`sock_addr == circuit.hop.address` (the full address of the first hop): data that did not come through the circuit "
+                  "(no session keys needed) is delivered and attributed to the origin it claims", [str(f) for f in s.facts])
+
+
+FRESH_KEY = ("generate_key", "generate")         # self.generate_key("curve25519"), OpenSSLSK.generate("curve25519"), LibNaCLSK.generate()
+
+
+def _fresh_key(ctx: Ctx, fi: FuncInfo, e: ast.AST | None, at: ast.AST, depth: int = 3) -> bool:
+    """e (evaluated at `at` in fi) is a key generated during this very call: a key-generation call, or a local all of whose
+    reaching definitions are one (nothing read from an attribute / a cache / a parameter)."""
+    e = strip_cast(e) if e is not None else None
+    if e is None or depth <= 0:
+        return False
+    if isinstance(e, ast.NamedExpr):
+        return _fresh_key(ctx, fi, e.value, at, depth)
+    if isinstance(e, ast.Call):
+        if call_name(e) in FRESH_KEY:
+            return True
+        if (call_name(e) or "")[:1].isupper() and len(e.args) == 1 and not e.keywords:      # OpenSSLSK(<freshly generated raw key>)
+            return _fresh_key(ctx, fi, e.args[0], at, depth - 1)
+        h = _new_helper(ctx, fi, e)
+        if h is not None:
+            rets = [r for r in walk_no_nested(h.node) if isinstance(r, ast.Return)]
+            return bool(rets) and all(_fresh_key(ctx, h, r.value, r, depth - 1) for r in rets)
+        return False
+    if isinstance(e, ast.Name):
+        # the variable of a comprehension / loop over a display of keys: one of the elements
+        for a in ancestors(e):
+            gens = a.generators if isinstance(a, (ast.ListComp, ast.SetComp, ast.GeneratorExp, ast.DictComp)) else []
+            if isinstance(a, (ast.For, ast.AsyncFor)) and isinstance(a.target, ast.Name) and a.target.id == e.id:
+                gens = [a]
+            for g in gens:
+                if isinstance(g.target, ast.Name) and g.target.id == e.id:
+                    elts = _literal_elts(fi, g.iter)
+                    return elts is not None and any(_fresh_key(ctx, fi, el, g.iter, depth - 1) for el in elts)
+    if isinstance(e, ast.Name) and not is_param(fi, e.id):
+        cfg = ctx.cfg(fi)
+        nodes = cfg.nodes_for(at)
+        defs = local_defs(fi, e.id)
+        all_nodes = [n for st, _, _ in defs for n in cfg.nodes_for(st)]
+        if not defs or not nodes or not all(cfg.must_complete(n, all_nodes) for n in nodes):
+            return False
+        rd = _reaching_defs(ctx, fi, e.id, nodes)
+        return bool(rd) and all(v is not None and _fresh_key(ctx, fi, v, st, depth - 1) for st, v in rd)
+    return False
+
+
+def rule_fresh_ephemerals(ctx: Ctx) -> None:
+    """
+    Session keys of different circuits are unrelated only because both sides contribute a NEW ephemeral curve25519 key to every
+    handshake: generate_diffie_secret returns a key pair generated in that call, and generate_diffie_shared_secret mixes a key generated
+    in that call into the shared secret.  If either is cached on the instance, every circuit the same two parties build derives the
+    same session keys (and nonce sequence): a cell recorded on one circuit authenticates on the other.
+    """
+    repo = ctx.repo
+    gs = repo.method("TunnelCrypto", "generate_diffie_secret", CR)
+    rets = ctx.anchor([r for r in walk_no_nested(gs.node) if isinstance(r, ast.Return)], "return of generate_diffie_secret")
+    for r in rets:
+        v = _resolved(gs, r.value)
+        first = v.elts[0] if isinstance(v, ast.Tuple) and v.elts else None
+        ctx.check(_fresh_key(ctx, gs, first, r), "fresh-ephemeral-keys", gs, r, "generate_diffie_secret returns a key generated in this call",
+                  "generate_diffie_secret does not return a key pair generated during the call (it is cached / read from the instance): "
+                  "every create/extend of this node offers the same ephemeral key, so circuits through the same hop can derive identical "
+                  "session keys and a cell of one circuit authenticates on another")
+    ss = repo.method("TunnelCrypto", "generate_diffie_shared_secret", CR)
+    dh = ctx.anchor([c for c in calls(ss) if call_name(c) == "diffie_hellman" and isinstance(c.func, ast.Attribute)], "diffie_hellman in generate_diffie_shared_secret")
+    ctx.check(any(_fresh_key(ctx, ss, c.func.value, c) for c in dh), "fresh-ephemeral-keys", ss, dh[0],
+              "generate_diffie_shared_secret mixes in a key generated in this call",
+              "generate_diffie_shared_secret derives the shared secret only from keys that outlive the call (the ephemeral key is cached / "
+              "read from the instance): with the originator's key repeated too, two circuits get identical session keys and a cell of one "
+              "circuit authenticates on the other")
+
+
+def _refs_understood(ctx: Ctx) -> None:
+    """Every mention of self.encrypt_cell / self.decrypt_cell that is not a direct call was consumed by a rule as (part of) a
+    callable picked at run time; otherwise the steps it stands for were not compared with the protocol table: no verdict."""
+    for c_fi, node in getattr(ctx, "_c04_refs", []):
+        if id(node) not in _used(ctx):
+            raise AnalysisError(f"undecided: how {c_fi.qualname} uses the reference `{norm(node)}`")
 
 
 def run(ctx: Ctx) -> None:
@@ -1084,6 +2759,10 @@ def run(ctx: Ctx) -> None:
     rule_e2e_delivery(ctx)
     rule_key_selection(ctx)
     rule_emitters(ctx)
+    rule_payload_conservation(ctx)
+    rule_own_circuit_sender(ctx)
+    rule_fresh_ephemerals(ctx)
+    _refs_understood(ctx)
     ctx.assume("ChaCha20-Poly1305 in ipv8_rust_tunnels.SessionKeys.encrypt_str/decrypt_str: decrypt raises ValueError on any altered byte; ciphertexts under different keys differ (trusted)")
     ctx.assume("a Rust CryptoEndpoint (ipv8_rust_tunnels.Endpoint), when used instead of PythonCryptoEndpoint, is outside the analysed source")
 
@@ -1155,6 +2834,14 @@ WITNESSES = [
     {"name": "layer removed outside the role functions", "file": CR, "rule": "direction-duality",
      "old": "        if not self.incoming_crypto(cell):\n            return\n",
      "new": "        if not self.incoming_crypto(cell):\n            return\n        self.decrypt_cell(cell, FORWARD, *self.circuits[circuit_id].hops)\n"},
+    {"name": "anonymising endpoint tunnels only queued packets", "file": EP, "rule": "payload-conservation",
+     "old": "            tunnel_community.send_data(circuit.hop.address, circuit_id, address, (\"0.0.0.0\", 0), packet)\n\n            # Any packets still need sending?\n",
+     "new": "            # Any packets still need sending?\n"},
+    {"name": "own-circuit data accepted by sender IP only", "file": TC, "rule": "origin-authentic",
+     "old": "        if circuit and origin and sock_addr == circuit.hop.address:",
+     "new": "        if circuit and origin and sock_addr[0] == circuit.hop.address[0]:"},
+    {"name": "responder reuses a long-lived key as ephemeral", "file": CR, "rule": "fresh-ephemeral-keys",
+     "old": "        tmp_key = OpenSSLSK.generate(\"curve25519\")", "new": "        tmp_key = self.key"},
     {"name": "community serialises cell itself", "file": TC, "rule": "cell-emitters",
      "old": "        return self.crypto_endpoint.send_cell(target_addr, cell)",
      "new": "        if payload.msg_id == 6:\n            self.endpoint.send(target_addr, cell.to_bin(self._prefix))\n            return None\n        return self.crypto_endpoint.send_cell(target_addr, cell)"},
